@@ -124,6 +124,9 @@ pub struct Data {
     x: Vec<Vec<f64>>,
     y: Vec<f64>,
     q: Vec<Vec<f64>>,
+    /// what the columns / targets are (the related-data oracle edits them accordingly)
+    feat: Feat,
+    target: Target,
 }
 #[derive(Clone, Copy, PartialEq, Debug)]
 enum Feat {
@@ -231,7 +234,7 @@ fn gen_data(rng: &mut Rng, n: usize, p: usize, feat: Feat, target: Target, cont_
     if feat == Feat::Cont {
         q.push(gen_row(rng, p, feat, &g).iter().map(|v| v * 50.0 + 7.0).collect());
     }
-    (Data { x: x1, y: y1, q: q.clone() }, Data { x: x2, y: y2, q })
+    (Data { x: x1, y: y1, q: q.clone(), feat, target }, Data { x: x2, y: y2, q, feat, target })
 }
 
 // ------------------------------------------------------------------------------------------
@@ -247,11 +250,19 @@ fn close(a: &[f64], b: &[f64], rel: f64) -> bool {
         })
 }
 
+#[derive(Clone, Copy, PartialEq, Debug)]
+pub enum Mode {
+    /// random parameters; round trips, equality laws, independent and related data
+    Search,
+    /// every parameter variant of the type, each through both formats
+    Sweep,
+}
 pub struct Case<'a> {
     pub out: &'a mut Out,
     pub tname: String,
     pub input: Value,
     pub f32m: bool,
+    pub mode: Mode,
 }
 impl<'a> Case<'a> {
     fn fail(&mut self, oracle: &str, what: &str) {
@@ -403,7 +414,7 @@ where
 
 /// Whole property for one type: fit on `d`, round trips, refit equality, inequality against a fit on
 /// `d2` (different rows and targets).
-fn run_type<M, F, O>(c: &mut Case, d: &Data, d2: &Data, fit: F, eq: EqFn<M>, obs: O, deterministic: bool)
+fn run_type<M, F, O>(c: &mut Case, d: &Data, d2: &Data, fit: F, eq: EqFn<M>, obs: &O, deterministic: bool) -> Option<M>
 where
     M: Serialize + DeserializeOwned + Debug + Send + 'static,
     F: Fn(&Data) -> Result<M, String> + Send + Clone + 'static,
@@ -419,7 +430,7 @@ where
         Ok(Err(e)) => {
             c.out.eval(hash_f64s(&key), false);
             c.count(&format!("search:fit-error({})", &e[..e.len().min(40)]));
-            return;
+            return None;
         }
         Err(p) => {
             c.out.eval(hash_f64s(&key), false);
@@ -427,7 +438,7 @@ where
             if p.contains("does not return") && std::env::var("C19_TRACE").is_ok() {
                 eprintln!("TIMEOUT {}", c.input);
             }
-            return;
+            return None;
         }
     };
     c.out.eval(hash_f64s(&key), d.x.len() >= 3);
@@ -435,7 +446,7 @@ where
         eprintln!("DUMP {} {}", c.tname, serde_json::to_string(&m).unwrap_or_default());
     }
     if !check_roundtrip(c, &m, eq, &|mm: &M| obs(mm, d)) {
-        return;
+        return None;
     }
     // second fit on the same data
     if let Ok(Ok(m2)) = fit_guarded(&fit, d) {
@@ -478,7 +489,12 @@ where
                     };
                     if same {
                         c.count("search:different-data-equal-but-indistinguishable(excluded)");
+                    } else if tolerance_blind_spot(c, &m, &m3) {
+                        c.out.count(&format!("observed:{}:different-rows-and-targets:equal-but-predict-differently(all-state-within-absolute-epsilon)", c.tname));
                     } else {
+                        if std::env::var("C19_DUMP_PAIR").is_ok() {
+                            eprintln!("PAIR {}\nA {}\nB {}\nOA {:?}\nOB {:?}", c.tname, serde_json::to_string(&m).unwrap_or_default(), serde_json::to_string(&m3).unwrap_or_default(), oa, ob);
+                        }
                         c.fail("different_data_unequal", "models fitted on different rows and targets compare equal although they predict differently");
                     }
                 }
@@ -486,6 +502,7 @@ where
             }
         }
     }
+    Some(m)
 }
 
 /// a fit that does not return within 2 s is a (counted) fit failure, not a C19 matter
@@ -516,12 +533,355 @@ fn eq_of<M: PartialEq>() -> EqFn<M> {
 }
 
 // ------------------------------------------------------------------------------------------
+// parameter coverage (sweep) and the related-data inequality oracle
+// ------------------------------------------------------------------------------------------
+
+/// One estimator with its parameter type.  `base` = the (random) parameters of this case,
+/// `variants` = `base` with one field moved to each of its other values (Option fields None / Some,
+/// every enum variant, booleans both ways, boundary values), labelled for the evidence counters.
+///  * Sweep mode: every variant (and `base`) is fitted and sent through both formats;
+///  * Search mode: `base` gets the round-trip / equality clauses, then the related-data oracle, in
+///    which a few variants serve as "same data, different parameter value".
+#[allow(clippy::too_many_arguments)]
+fn run_est<M, P, F, O>(c: &mut Case, rng: &mut Rng, d: &Data, d2: &Data, base: P, variants: Vec<(String, P)>, check_p: Option<fn(&mut Case, &P)>, fit: F, eq: EqFn<M>, obs: O, deterministic: bool)
+where
+    M: Serialize + DeserializeOwned + Debug + Send + 'static,
+    P: Clone + Debug + Send + 'static,
+    F: Fn(&Data, &P) -> Result<M, String> + Send + Clone + 'static,
+    O: Fn(&M, &Data) -> Vec<f64>,
+{
+    let with = |p: &P| {
+        let (f, p) = (fit.clone(), p.clone());
+        move |d: &Data| f(d, &p)
+    };
+    match c.mode {
+        Mode::Sweep => {
+            let mut all = vec![("base".to_string(), base)];
+            all.extend(variants);
+            for (label, p) in all {
+                c.input["variant"] = json!(label);
+                if let Some(cp) = check_p {
+                    cp(c, &p);
+                }
+                sweep_one(c, d, with(&p), eq, &obs, &label);
+            }
+            c.input.as_object_mut().map(|o| o.remove("variant"));
+        }
+        Mode::Search => {
+            if let Some(cp) = check_p {
+                cp(c, &base);
+            }
+            if let Some(m) = run_type(c, d, d2, with(&base), eq, &obs, deterministic) {
+                let mut alts: Vec<(String, _)> = vec![];
+                let bdbg = format!("{:?}", base);
+                let variants: Vec<(String, P)> = variants.into_iter().filter(|(_, p)| format!("{:?}", p) != bdbg).collect();
+                if !variants.is_empty() {
+                    for _ in 0..2 {
+                        let (l, p) = rng.pick(&variants);
+                        if !alts.iter().any(|(x, _)| x == l) {
+                            alts.push((l.clone(), with(p)));
+                        }
+                    }
+                }
+                run_related(c, rng, d, d2, &m, with(&base), alts, eq, &obs);
+            }
+        }
+    }
+}
+
+/// coverage of one (type, parameter variant): fit, then every round-trip clause in both formats
+fn sweep_one<M, F, O>(c: &mut Case, d: &Data, fit: F, eq: EqFn<M>, obs: &O, label: &str)
+where
+    M: Serialize + DeserializeOwned + Debug + Send + 'static,
+    F: Fn(&Data) -> Result<M, String> + Send + Clone + 'static,
+    O: Fn(&M, &Data) -> Vec<f64>,
+{
+    let mut key: Vec<f64> = d.x.iter().flatten().cloned().collect();
+    key.extend(d.y.iter());
+    key.push(hash_of(&(c.tname.clone(), label.to_string(), c.f32m)) as f64);
+    match fit_guarded(&fit, d) {
+        Ok(Ok(m)) => {
+            c.out.eval(hash_f64s(&key), true);
+            c.out.count(&format!("coverage:{}:{}", c.tname, label));
+            check_roundtrip(c, &m, eq, &|mm: &M| obs(mm, d));
+        }
+        Ok(Err(e)) => {
+            c.out.eval(hash_f64s(&key), false);
+            c.out.count(&format!("coverage-fit-error:{}:{}({})", c.tname, label, &e[..e.len().min(30)]));
+        }
+        Err(p) => {
+            c.out.eval(hash_f64s(&key), false);
+            c.out.count(&format!("coverage-fit-panic:{}:{}({})", c.tname, label, &p[..p.len().min(30)]));
+        }
+    }
+}
+
+fn sorted_classes(y: &[f64]) -> Vec<f64> {
+    let mut cl: Vec<f64> = y.to_vec();
+    cl.sort_by(|a, b| a.partial_cmp(b).unwrap_or(std::cmp::Ordering::Equal));
+    cl.dedup();
+    cl
+}
+
+/// Training sets systematically related to `d` (the query rows stay): what "fitted on different rows
+/// and targets" looks like in practice is rarely an independent sample, far more often the same table
+/// after an edit.  `d2` supplies fresh rows from the same generator.
+fn related_data(rng: &mut Rng, d: &Data, d2: &Data) -> Vec<(&'static str, Data)> {
+    let n = d.x.len();
+    let p = d.x.first().map(|r| r.len()).unwrap_or(0);
+    let has_y = d.target != Target::NoTarget;
+    let mut out: Vec<(&'static str, Data)> = vec![];
+    if n == 0 || p == 0 {
+        return out;
+    }
+    // the same rows plus appended rows
+    {
+        let extra = rng.usize_in(1, 3.min(d2.x.len()));
+        let mut v = d.clone();
+        v.x.extend(d2.x[..extra].iter().cloned());
+        if has_y {
+            v.y.extend(d2.y[..extra].iter().cloned());
+        }
+        out.push(("appended-rows", v));
+    }
+    // a row-prefix
+    if n >= 3 {
+        let drop = rng.usize_in(1, (n / 4).max(1));
+        let mut v = d.clone();
+        v.x.truncate(n - drop);
+        if has_y {
+            v.y.truncate(n - drop);
+        }
+        out.push(("row-prefix", v));
+    }
+    // one target changed (classification: to another class that is present; the class set stays)
+    match d.target {
+        Target::Reg => {
+            let i = rng.below(n);
+            let ymax = d.y.iter().fold(0.0f64, |a, v| a.max(v.abs()));
+            let mut v = d.clone();
+            v.y[i] += 0.5 * ymax.max(1e-3) * if rng.bool() { 1.0 } else { -1.0 };
+            out.push(("one-target-changed", v));
+        }
+        Target::Class(_) => {
+            let cl = sorted_classes(&d.y);
+            let cand: Vec<usize> = (0..n).filter(|i| d.y.iter().filter(|v| **v == d.y[*i]).count() >= 2).collect();
+            if cl.len() >= 2 && !cand.is_empty() {
+                let i = *rng.pick(&cand);
+                let others: Vec<f64> = cl.iter().cloned().filter(|v| *v != d.y[i]).collect();
+                let mut v = d.clone();
+                v.y[i] = *rng.pick(&others);
+                out.push(("one-target-changed", v));
+            }
+        }
+        Target::NoTarget => {}
+    }
+    // one feature value changed
+    {
+        let (i, j) = (rng.below(n), rng.below(p));
+        let mut v = d.clone();
+        let old = v.x[i][j];
+        v.x[i][j] = match d.feat {
+            Feat::Cont => {
+                let cmax = d.x.iter().fold(0.0f64, |a, r| a.max(r[j].abs()));
+                old + 0.5 * cmax.max(1e-3) * if rng.bool() { 1.0 } else { -1.0 }
+            }
+            Feat::Binary => 1.0 - old,
+            Feat::Count => old + 1.0,
+            Feat::Cat => {
+                if old > 0.0 {
+                    old - 1.0
+                } else {
+                    1.0
+                }
+            }
+        };
+        out.push(("one-feature-changed", v));
+    }
+    // the same rows and targets in another order
+    if n >= 2 {
+        let r = rng.usize_in(1, n - 1);
+        let mut v = d.clone();
+        v.x.rotate_left(r);
+        if has_y {
+            v.y.rotate_left(r);
+        }
+        if v.x != d.x || v.y != d.y {
+            out.push(("rows-permuted", v));
+        }
+    }
+    // one more / one fewer class
+    if let Target::Class(_) = d.target {
+        let cl = sorted_classes(&d.y);
+        {
+            let extra = 2.min(d2.x.len());
+            let newlabel = cl.last().cloned().unwrap_or(0.0) + 1.0;
+            let mut v = d.clone();
+            v.x.extend(d2.x[..extra].iter().cloned());
+            v.y.extend((0..extra).map(|_| newlabel));
+            out.push(("one-more-class", v));
+        }
+        if cl.len() >= 2 {
+            let gone = *rng.pick(&cl);
+            let mut v = d.clone();
+            v.x = d.x.iter().zip(d.y.iter()).filter(|(_, y)| **y != gone).map(|(r, _)| r.clone()).collect();
+            v.y = d.y.iter().cloned().filter(|y| *y != gone).collect();
+            if !v.x.is_empty() {
+                out.push(("one-fewer-class", v));
+            }
+        }
+    }
+    out
+}
+
+/// Both serialised states have the same structure and every pair of numbers is within 2 * machine epsilon
+/// (ABSOLUTE) of each other, yet not all are identical: the hand-written relations compare with an absolute
+/// tolerance of T::epsilon(), so two different models whose numbers are all tiny (seen: an f32 logistic fit on
+/// nearly constant columns that stops at coefficients ~1e-8) compare equal although argmax over their scores
+/// differs.  Reported; counted as observed under exactly this predicate.
+fn states_within_abs_eps(a: &Value, b: &Value, eps: f64, any_diff: &mut bool) -> bool {
+    match (a, b) {
+        (Value::Number(x), Value::Number(y)) => {
+            if x == y {
+                return true;
+            }
+            match (x.as_f64(), y.as_f64()) {
+                (Some(u), Some(v)) if x.is_f64() && y.is_f64() && (u - v).abs() <= 2.0 * eps => {
+                    *any_diff = true;
+                    true
+                }
+                _ => false,
+            }
+        }
+        (Value::Array(x), Value::Array(y)) => x.len() == y.len() && x.iter().zip(y.iter()).all(|(u, v)| states_within_abs_eps(u, v, eps, any_diff)),
+        (Value::Object(x), Value::Object(y)) => x.len() == y.len() && x.iter().all(|(k, u)| y.get(k).map(|v| states_within_abs_eps(u, v, eps, any_diff)).unwrap_or(false)),
+        _ => a == b,
+    }
+}
+fn tolerance_blind_spot<M: Serialize>(c: &Case, a: &M, b: &M) -> bool {
+    let eps = if c.f32m { f32::EPSILON as f64 } else { f64::EPSILON };
+    match (serde_json::to_value(a), serde_json::to_value(b)) {
+        (Ok(x), Ok(y)) => {
+            let mut any = false;
+            states_within_abs_eps(&x, &y, eps, &mut any) && any
+        }
+        _ => false,
+    }
+}
+
+/// Equality that the CURRENT tree shows between models which predict differently, per (type, relation),
+/// under a predicate on the two serialised states that names exactly the blind spot (reported to the
+/// coordinator; counted as `observed:<type>:...` until decided).  Anything outside these predicates fails.
+fn observed_blind_spot(tname: &str, a: &Value, b: &Value, rows_differ: bool) -> Option<&'static str> {
+    let same = |keys: &[&str]| keys.iter().all(|k| !a[*k].is_null() && a[*k] == b[*k]);
+    match tname {
+        // k-NN: `==` looks at k and the stored targets (classifier: also the class list), never at the
+        // training rows, the distance, the weight function or the search structure
+        "KNNRegressor" if same(&["k", "y"]) => Some("same-k-and-stored-targets;rows/distance/weights-not-compared"),
+        "KNNClassifier" if same(&["k", "y", "classes"]) => Some("same-k-classes-and-stored-targets;rows/distance/weights-not-compared"),
+        // PCA: `==` looks at all p eigenvectors and eigenvalues, never at the projection (n_components), mu, pmu
+        "PCA" if same(&["eigenvectors", "eigenvalues"]) && a["projection"] != b["projection"] => Some("same-eigenvectors-and-eigenvalues;projection(n_components)-not-compared"),
+        // CoverTree: `==` compares the stored points (through the tree's own distance), not the distance object
+        "CoverTree" if same(&["data"]) && a["distance"] != b["distance"] => Some("same-points;distance-object-not-compared"),
+        // DBSCAN on the SAME rows (different rows: the listed finding dbscan-eq-ignores-points): `==` looks at
+        // the labelling and eps, not at the distance object / min_samples / search structure
+        "DBSCAN" if !rows_differ && same(&["cluster_labels", "num_classes", "eps"]) => Some("same-rows-labelling-and-eps;distance/min_samples/algorithm-not-compared"),
+        _ => None,
+    }
+}
+
+/// "does not equal a model fitted on different rows and targets": `m` (fitted on `d` with `fit`) against
+/// models fitted on the related training sets and on the same data with another parameter value.  A pair
+/// that compares equal although the two models answer some probe row differently is a failure.  Probe
+/// rows: the queries, the training rows of both sets.  Permuted rows: the text does not say whether a
+/// model may depend on the order of the rows, so that relation is only counted.
+#[allow(clippy::too_many_arguments)]
+fn run_related<M, F, O>(c: &mut Case, rng: &mut Rng, d: &Data, d2: &Data, m: &M, fit: F, alts: Vec<(String, F)>, eq: EqFn<M>, obs: &O)
+where
+    M: Serialize + DeserializeOwned + Debug + Send + 'static,
+    F: Fn(&Data) -> Result<M, String> + Send + Clone + 'static,
+    O: Fn(&M, &Data) -> Vec<f64>,
+{
+    let e = match eq {
+        Some(e) => e,
+        None => return,
+    };
+    let tol = if c.f32m { 1e-4 } else { 1e-9 };
+    let mut plan: Vec<(String, Data, F)> = related_data(rng, d, d2).into_iter().map(|(r, dv)| (r.to_string(), dv, fit.clone())).collect();
+    for (l, f) in alts {
+        plan.push((format!("parameter-changed({})", l.split('=').next().unwrap_or(&l)), d.clone(), f));
+    }
+    for (rel, dv, f) in plan {
+        let relkey = rel.split('(').next().unwrap_or(&rel).to_string();
+        let mv = match fit_guarded(&f, &dv) {
+            Ok(Ok(mv)) => mv,
+            _ => {
+                c.out.count(&format!("related:{}:fit-failed(skipped)", relkey));
+                continue;
+            }
+        };
+        let dbg = format!("{:?}", mv);
+        if dbg.contains("NaN") || dbg.contains("inf") {
+            c.out.count(&format!("related:{}:nonfinite-state(skipped)", relkey));
+            continue;
+        }
+        c.out.count(&format!("related:{}:{}", c.tname, relkey));
+        let mut probe = d.clone();
+        probe.q.extend(d.x.iter().cloned());
+        probe.q.extend(dv.x.iter().filter(|r| !d.x.contains(r)).cloned());
+        let differ = match (guard(|| obs(m, &probe)), guard(|| obs(&mv, &probe))) {
+            (Ok(x), Ok(y)) => !close(&x, &y, tol),
+            (Err(_), Err(_)) => false,
+            _ => true,
+        };
+        let sizes = format!("{} rows vs {} rows", d.x.len(), dv.x.len());
+        // the relation survives the round trip of one operand (the restored copy stands for the original)
+        if let Ok(Ok(r)) = guard(|| bincode::serialize(&mv).and_then(|b| bincode::deserialize::<M>(&b))) {
+            if let (Ok(x), Ok(y)) = (guard(|| e(m, &mv)), guard(|| e(m, &r))) {
+                if x != y {
+                    c.fail("related_data_unequal", &format!("[{}; {}] a == b and a == restored(b) disagree", rel, sizes));
+                }
+            }
+        }
+        match (guard(|| e(m, &mv)), guard(|| e(&mv, m))) {
+            (Ok(false), Ok(false)) => c.out.count(&format!("related:{}:unequal", relkey)),
+            (Ok(a), Ok(b)) if a != b => c.fail("equality_symmetric", &format!("a == b and b == a disagree for a model and the model fitted on related data [{}; {}]", rel, sizes)),
+            (Ok(_), Ok(_)) if !differ => c.out.count(&format!("related:{}:equal-and-indistinguishable-on-all-probes", relkey)),
+            (Ok(_), Ok(_)) if relkey == "rows-permuted" => c.out.count("related:rows-permuted:equal-but-predict-differently(counted-only)"),
+            (Ok(_), Ok(_)) => {
+                let (sa, sb) = (serde_json::to_value(m).unwrap_or(Value::Null), serde_json::to_value(&mv).unwrap_or(Value::Null));
+                let rows_differ = d.x != dv.x;
+                if c.tname == "DBSCAN" && rows_differ && dbscan_same_labelling(m, &mv) {
+                    // the listed finding, exact predicate: different rows, same labelling, equal
+                    if DBSCAN_FINDING_LISTED {
+                        c.out.known("dbscan-eq-ignores-points", "DBSCAN models fitted on different rows with the same label vector compare equal (PartialEq ignores the stored points)");
+                    }
+                    c.out.count("observe:dbscan-eq-ignores-points(different-rows,same-labelling,equal)");
+                } else if tolerance_blind_spot(c, m, &mv) {
+                    c.out.count(&format!("observed:{}:{}:equal-but-predict-differently(all-state-within-absolute-epsilon)", c.tname, relkey));
+                } else if let Some(why) = observed_blind_spot(&c.tname, &sa, &sb, rows_differ) {
+                    c.out.count(&format!("observed:{}:{}:equal-but-predict-differently({})", c.tname, relkey, why));
+                } else {
+                    c.out.count(&format!("fail-detail:related_data_unequal:{}:{}", c.tname, relkey));
+                    c.fail(
+                        "related_data_unequal",
+                        &format!("[{}; {}] the two models compare equal (both directions) although they predict differently on some probe row", rel, sizes),
+                    );
+                }
+            }
+            _ => c.fail("related_data_unequal", &format!("[{}; {}] PartialEq panicked", rel, sizes)),
+        }
+    }
+}
+
+// ------------------------------------------------------------------------------------------
 // per-type cases (generic in the scalar width)
 // ------------------------------------------------------------------------------------------
 
-fn case_dense_matrix<T: Num>(c: &mut Case, rng: &mut Rng) {
+fn case_dense_matrix<T: Num>(c: &mut Case, rng: &mut Rng, shape: Option<(usize, usize)>) {
     let n = rng.below(9);
     let p = if n == 0 { 0 } else { rng.usize_in(1, 9) };
+    let (n, p) = shape.unwrap_or((n, p));
     let special = rng.chance(0.2);
     let mkv = |rng: &mut Rng| -> Vec<f64> {
         (0..n * p)
@@ -549,8 +909,8 @@ fn case_dense_matrix<T: Num>(c: &mut Case, rng: &mut Rng) {
     c.input["nrows"] = json!(n);
     c.input["ncols"] = json!(p);
     c.input["values_column_major"] = json!(v1);
-    let d = Data { x: vec![v1.clone()], y: vec![], q: vec![] };
-    let d2 = Data { x: vec![v2], y: vec![], q: vec![] };
+    let d = Data { x: vec![v1.clone()], y: vec![], q: vec![], feat: Feat::Cont, target: Target::NoTarget };
+    let d2 = Data { x: vec![v2], y: vec![], q: vec![], feat: Feat::Cont, target: Target::NoTarget };
     if n * p == 0 {
         // nothing to tell two empty matrices apart
         let m: DenseMatrix<T> = DenseMatrix::new(n, p, vec![]);
@@ -583,7 +943,7 @@ fn case_dense_matrix<T: Num>(c: &mut Case, rng: &mut Rng) {
         &d2,
         move |d: &Data| Ok(DenseMatrix::<T>::new(n, p, vect::<T>(&d.x[0]))),
         eq_of(),
-        |m: &DenseMatrix<T>, _d: &Data| {
+        &|m: &DenseMatrix<T>, _d: &Data| {
             let mut o = matf(m);
             // raw storage, a transpose and a product exercise the restored shape
             o.extend(matf(&m.transpose()));
@@ -593,6 +953,22 @@ fn case_dense_matrix<T: Num>(c: &mut Case, rng: &mut Rng) {
         },
         true,
     );
+}
+
+/// `vs.push((label, base with one field changed))`
+macro_rules! var {
+    ($vs:ident, $base:ident, $label:expr, |$p:ident| $body:expr) => {{
+        #[allow(unused_mut)]
+        let mut $p = $base.clone();
+        $body;
+        $vs.push(($label.to_string(), $p));
+    }};
+}
+
+fn predict_obs<T: Num>(r: Result<Vec<T>, Failed>) -> Vec<f64> {
+    let mut o = vec![];
+    push_res(&mut o, r);
+    o
 }
 
 fn case_linear<T: Num>(c: &mut Case, rng: &mut Rng, which: usize) {
@@ -615,24 +991,25 @@ fn case_linear<T: Num>(c: &mut Case, rng: &mut Rng, which: usize) {
         }
     }
     describe(c, &d, "");
-    let q = |m: &dyn Fn(&DenseMatrix<T>) -> Result<Vec<T>, Failed>, d: &Data| -> Vec<f64> {
-        let mut o = vec![];
-        push_res(&mut o, m(&mat::<T>(&d.q)));
-        o
-    };
     match which {
         0 => {
             let solver_qr = rng.bool();
             c.input["params"] = json!(format!("solver_qr={}", solver_qr));
-            let mk = move || LinearRegressionParameters::default().with_solver(if solver_qr { LinearRegressionSolverName::QR } else { LinearRegressionSolverName::SVD });
-            check_params(c, &mk());
-            run_type(
+            let base = LinearRegressionParameters::default().with_solver(if solver_qr { LinearRegressionSolverName::QR } else { LinearRegressionSolverName::SVD });
+            let mut vs = vec![];
+            var!(vs, base, "solver=QR", |p| p.solver = LinearRegressionSolverName::QR);
+            var!(vs, base, "solver=SVD", |p| p.solver = LinearRegressionSolverName::SVD);
+            run_est(
                 c,
+                rng,
                 &d,
                 &d2,
-                move |d: &Data| LinearRegression::fit(&mat::<T>(&d.x), &vect::<T>(&d.y), mk()).map_err(|e| e.to_string()),
+                base,
+                vs,
+                Some(check_params),
+                |d: &Data, p: &LinearRegressionParameters| LinearRegression::fit(&mat::<T>(&d.x), &vect::<T>(&d.y), p.clone()).map_err(|e| e.to_string()),
                 eq_of(),
-                |m: &LinearRegression<T, DenseMatrix<T>>, d: &Data| q(&|x| m.predict(x), d),
+                |m: &LinearRegression<T, DenseMatrix<T>>, d: &Data| predict_obs(m.predict(&mat::<T>(&d.q))),
                 true,
             );
         }
@@ -641,20 +1018,29 @@ fn case_linear<T: Num>(c: &mut Case, rng: &mut Rng, which: usize) {
             let chol = rng.bool();
             let norm = rng.bool();
             c.input["params"] = json!(format!("alpha={} cholesky={} normalize={}", alpha, chol, norm));
-            let mk = move || {
-                RidgeRegressionParameters::default()
-                    .with_alpha(t::<T>(alpha))
-                    .with_normalize(norm)
-                    .with_solver(if chol { RidgeRegressionSolverName::Cholesky } else { RidgeRegressionSolverName::SVD })
-            };
-            check_params(c, &mk());
-            run_type(
+            let base = RidgeRegressionParameters::default()
+                .with_alpha(t::<T>(alpha))
+                .with_normalize(norm)
+                .with_solver(if chol { RidgeRegressionSolverName::Cholesky } else { RidgeRegressionSolverName::SVD });
+            let mut vs = vec![];
+            var!(vs, base, "solver=Cholesky", |p| p.solver = RidgeRegressionSolverName::Cholesky);
+            var!(vs, base, "solver=SVD", |p| p.solver = RidgeRegressionSolverName::SVD);
+            var!(vs, base, "normalize=true", |p| p.normalize = true);
+            var!(vs, base, "normalize=false", |p| p.normalize = false);
+            var!(vs, base, "alpha=0", |p| p.alpha = t::<T>(0.0));
+            var!(vs, base, "alpha=1e-6", |p| p.alpha = t::<T>(1e-6));
+            var!(vs, base, "alpha=1e3", |p| p.alpha = t::<T>(1e3));
+            run_est(
                 c,
+                rng,
                 &d,
                 &d2,
-                move |d: &Data| RidgeRegression::fit(&mat::<T>(&d.x), &vect::<T>(&d.y), mk()).map_err(|e| e.to_string()),
+                base,
+                vs,
+                Some(check_params),
+                |d: &Data, p: &RidgeRegressionParameters<T>| RidgeRegression::fit(&mat::<T>(&d.x), &vect::<T>(&d.y), p.clone()).map_err(|e| e.to_string()),
                 eq_of(),
-                |m: &RidgeRegression<T, DenseMatrix<T>>, d: &Data| q(&|x| m.predict(x), d),
+                |m: &RidgeRegression<T, DenseMatrix<T>>, d: &Data| predict_obs(m.predict(&mat::<T>(&d.q))),
                 true,
             );
         }
@@ -662,15 +1048,27 @@ fn case_linear<T: Num>(c: &mut Case, rng: &mut Rng, which: usize) {
             let alpha = *rng.pick(&[0.001, 0.05, 0.5]);
             let norm = rng.bool();
             c.input["params"] = json!(format!("alpha={} normalize={}", alpha, norm));
-            let mk = move || LassoParameters::default().with_alpha(t::<T>(alpha)).with_normalize(norm).with_max_iter(200);
-            check_params(c, &mk());
-            run_type(
+            let base = LassoParameters::default().with_alpha(t::<T>(alpha)).with_normalize(norm).with_max_iter(200);
+            let mut vs = vec![];
+            var!(vs, base, "normalize=true", |p| p.normalize = true);
+            var!(vs, base, "normalize=false", |p| p.normalize = false);
+            var!(vs, base, "alpha=1e-3", |p| p.alpha = t::<T>(1e-3));
+            var!(vs, base, "alpha=10(all-coefficients-zero)", |p| p.alpha = t::<T>(10.0));
+            var!(vs, base, "tol=1e-2", |p| p.tol = t::<T>(1e-2));
+            var!(vs, base, "tol=1e-6", |p| p.tol = t::<T>(1e-6));
+            var!(vs, base, "max_iter=1", |p| p.max_iter = 1);
+            var!(vs, base, "max_iter=1000", |p| p.max_iter = 1000);
+            run_est(
                 c,
+                rng,
                 &d,
                 &d2,
-                move |d: &Data| Lasso::fit(&mat::<T>(&d.x), &vect::<T>(&d.y), mk()).map_err(|e| e.to_string()),
+                base,
+                vs,
+                Some(check_params),
+                |d: &Data, p: &LassoParameters<T>| Lasso::fit(&mat::<T>(&d.x), &vect::<T>(&d.y), p.clone()).map_err(|e| e.to_string()),
                 eq_of(),
-                |m: &Lasso<T, DenseMatrix<T>>, d: &Data| q(&|x| m.predict(x), d),
+                |m: &Lasso<T, DenseMatrix<T>>, d: &Data| predict_obs(m.predict(&mat::<T>(&d.q))),
                 true,
             );
         }
@@ -679,15 +1077,29 @@ fn case_linear<T: Num>(c: &mut Case, rng: &mut Rng, which: usize) {
             let l1 = *rng.pick(&[0.2, 0.5, 0.9]);
             let norm = rng.bool();
             c.input["params"] = json!(format!("alpha={} l1_ratio={} normalize={}", alpha, l1, norm));
-            let mk = move || ElasticNetParameters::default().with_alpha(t::<T>(alpha)).with_l1_ratio(t::<T>(l1)).with_normalize(norm).with_max_iter(200);
-            check_params(c, &mk());
-            run_type(
+            let base = ElasticNetParameters::default().with_alpha(t::<T>(alpha)).with_l1_ratio(t::<T>(l1)).with_normalize(norm).with_max_iter(200);
+            let mut vs = vec![];
+            var!(vs, base, "normalize=true", |p| p.normalize = true);
+            var!(vs, base, "normalize=false", |p| p.normalize = false);
+            var!(vs, base, "alpha=1e-3", |p| p.alpha = t::<T>(1e-3));
+            var!(vs, base, "alpha=10", |p| p.alpha = t::<T>(10.0));
+            var!(vs, base, "l1_ratio=0.1", |p| p.l1_ratio = t::<T>(0.1));
+            var!(vs, base, "l1_ratio=1", |p| p.l1_ratio = t::<T>(1.0));
+            var!(vs, base, "tol=1e-2", |p| p.tol = t::<T>(1e-2));
+            var!(vs, base, "tol=1e-6", |p| p.tol = t::<T>(1e-6));
+            var!(vs, base, "max_iter=1", |p| p.max_iter = 1);
+            var!(vs, base, "max_iter=1000", |p| p.max_iter = 1000);
+            run_est(
                 c,
+                rng,
                 &d,
                 &d2,
-                move |d: &Data| ElasticNet::fit(&mat::<T>(&d.x), &vect::<T>(&d.y), mk()).map_err(|e| e.to_string()),
+                base,
+                vs,
+                Some(check_params),
+                |d: &Data, p: &ElasticNetParameters<T>| ElasticNet::fit(&mat::<T>(&d.x), &vect::<T>(&d.y), p.clone()).map_err(|e| e.to_string()),
                 eq_of(),
-                |m: &ElasticNet<T, DenseMatrix<T>>, d: &Data| q(&|x| m.predict(x), d),
+                |m: &ElasticNet<T, DenseMatrix<T>>, d: &Data| predict_obs(m.predict(&mat::<T>(&d.q))),
                 true,
             );
         }
@@ -716,6 +1128,12 @@ fn check_params<P: Serialize + DeserializeOwned + Debug>(c: &mut Case, p: &P) {
     let saved = c.tname.clone();
     c.tname = format!("{}Parameters", saved);
     c.out.eval(hash_of(&format!("{:?}", p)), true);
+    if c.mode == Mode::Sweep {
+        if let Some(l) = c.input["variant"].as_str() {
+            let k = format!("coverage:{}:{}", c.tname, l);
+            c.out.count(&k);
+        }
+    }
     check_roundtrip(c, p, None, &|_: &P| vec![]);
     c.tname = saved;
 }
@@ -727,13 +1145,21 @@ fn case_logistic<T: Num>(c: &mut Case, rng: &mut Rng) {
     let (d, d2) = gen_data(rng, n, p, Feat::Cont, Target::Class(k), true, true);
     let alpha = *rng.pick(&[0.0, 0.1, 1.0]);
     describe(c, &d, &format!("alpha={}", alpha));
-    let mk = move || LogisticRegressionParameters::default().with_alpha(t::<T>(alpha));
-    check_params(c, &mk());
-    run_type(
+    let base = LogisticRegressionParameters::default().with_alpha(t::<T>(alpha));
+    let mut vs = vec![];
+    var!(vs, base, "solver=LBFGS", |p| p.solver = smartcore::linear::logistic_regression::LogisticRegressionSolverName::LBFGS);
+    var!(vs, base, "alpha=0", |p| p.alpha = t::<T>(0.0));
+    var!(vs, base, "alpha=0.1", |p| p.alpha = t::<T>(0.1));
+    var!(vs, base, "alpha=10", |p| p.alpha = t::<T>(10.0));
+    run_est(
         c,
+        rng,
         &d,
         &d2,
-        move |d: &Data| LogisticRegression::fit(&mat::<T>(&d.x), &vect::<T>(&d.y), mk()).map_err(|e| e.to_string()),
+        base,
+        vs,
+        Some(check_params),
+        |d: &Data, p: &LogisticRegressionParameters<T>| LogisticRegression::fit(&mat::<T>(&d.x), &vect::<T>(&d.y), p.clone()).map_err(|e| e.to_string()),
         eq_of(),
         |m: &LogisticRegression<T, DenseMatrix<T>>, d: &Data| {
             let mut o = vec![];
@@ -746,7 +1172,8 @@ fn case_logistic<T: Num>(c: &mut Case, rng: &mut Rng) {
     );
 }
 
-fn knn_with<T: Num, D>(c: &mut Case, rng: &mut Rng, dist: D, dname: &str, d: &Data, d2: &Data, regressor: bool)
+#[allow(clippy::too_many_arguments)]
+fn knn_with<T: Num, D>(c: &mut Case, rng: &mut Rng, dist: D, dname: &str, more: Vec<(String, D)>, d: &Data, d2: &Data, regressor: bool)
 where
     D: Distance<Vec<T>, T> + Serialize + DeserializeOwned + Debug + Clone + Send + Sync + 'static,
 {
@@ -755,63 +1182,95 @@ where
     let cover = rng.bool();
     let wdist = rng.bool();
     describe(c, d, &format!("distance={} k={} cover_tree={} weight_distance={}", dname, k, cover, wdist));
-    let alg = move || if cover { KNNAlgorithmName::CoverTree } else { KNNAlgorithmName::LinearSearch };
-    let wf = move || if wdist { KNNWeightFunction::Distance } else { KNNWeightFunction::Uniform };
+    let alg = if cover { KNNAlgorithmName::CoverTree } else { KNNAlgorithmName::LinearSearch };
+    let wf = if wdist { KNNWeightFunction::Distance } else { KNNWeightFunction::Uniform };
+    let dn = dname.split('(').next().unwrap_or(dname).to_string();
+    let lab = |s: &str| format!("distance={},{}", dn, s);
     if regressor {
-        let dd = dist.clone();
-        let mk = move || KNNRegressorParameters::default().with_k(k).with_algorithm(alg()).with_weight(wf()).with_distance(dd.clone());
-        check_params(c, &mk());
-        run_type(
+        let base = KNNRegressorParameters::default().with_k(k).with_algorithm(alg).with_weight(wf).with_distance(dist);
+        let mut vs = vec![];
+        var!(vs, base, lab("algorithm=LinearSearch"), |p| p.algorithm = KNNAlgorithmName::LinearSearch);
+        var!(vs, base, lab("algorithm=CoverTree"), |p| p.algorithm = KNNAlgorithmName::CoverTree);
+        var!(vs, base, lab("weight=Uniform"), |p| p.weight = KNNWeightFunction::Uniform);
+        var!(vs, base, lab("weight=Distance"), |p| p.weight = KNNWeightFunction::Distance);
+        var!(vs, base, lab("k=1"), |p| p.k = 1);
+        var!(vs, base, lab("k=n"), |p| p.k = n);
+        for (l, dv) in more.iter() {
+            var!(vs, base, format!("distance={}", l), |p| p = p.with_distance(dv.clone()));
+        }
+        run_est(
             c,
+            rng,
             d,
             d2,
-            move |d: &Data| KNNRegressor::fit(&mat::<T>(&d.x), &vect::<T>(&d.y), mk()).map_err(|e| e.to_string()),
+            base,
+            vs,
+            Some(check_params),
+            |d: &Data, p: &KNNRegressorParameters<T, D>| KNNRegressor::fit(&mat::<T>(&d.x), &vect::<T>(&d.y), p.clone()).map_err(|e| e.to_string()),
             eq_of(),
-            |m: &KNNRegressor<T, D>, d: &Data| {
-                let mut o = vec![];
-                push_res(&mut o, m.predict(&mat::<T>(&d.q)));
-                o
-            },
+            |m: &KNNRegressor<T, D>, d: &Data| predict_obs(m.predict(&mat::<T>(&d.q))),
             true,
         );
     } else {
-        let dd = dist.clone();
-        let mk = move || KNNClassifierParameters::default().with_k(k).with_algorithm(alg()).with_weight(wf()).with_distance(dd.clone());
-        check_params(c, &mk());
-        run_type(
+        let base = KNNClassifierParameters::default().with_k(k).with_algorithm(alg).with_weight(wf).with_distance(dist);
+        let mut vs = vec![];
+        var!(vs, base, lab("algorithm=LinearSearch"), |p| p.algorithm = KNNAlgorithmName::LinearSearch);
+        var!(vs, base, lab("algorithm=CoverTree"), |p| p.algorithm = KNNAlgorithmName::CoverTree);
+        var!(vs, base, lab("weight=Uniform"), |p| p.weight = KNNWeightFunction::Uniform);
+        var!(vs, base, lab("weight=Distance"), |p| p.weight = KNNWeightFunction::Distance);
+        var!(vs, base, lab("k=1"), |p| p.k = 1);
+        var!(vs, base, lab("k=n"), |p| p.k = n);
+        for (l, dv) in more.iter() {
+            var!(vs, base, format!("distance={}", l), |p| p = p.with_distance(dv.clone()));
+        }
+        run_est(
             c,
+            rng,
             d,
             d2,
-            move |d: &Data| KNNClassifier::fit(&mat::<T>(&d.x), &vect::<T>(&d.y), mk()).map_err(|e| e.to_string()),
+            base,
+            vs,
+            Some(check_params),
+            |d: &Data, p: &KNNClassifierParameters<T, D>| KNNClassifier::fit(&mat::<T>(&d.x), &vect::<T>(&d.y), p.clone()).map_err(|e| e.to_string()),
             eq_of(),
-            |m: &KNNClassifier<T, D>, d: &Data| {
-                let mut o = vec![];
-                push_res(&mut o, m.predict(&mat::<T>(&d.q)));
-                o
-            },
+            |m: &KNNClassifier<T, D>, d: &Data| predict_obs(m.predict(&mat::<T>(&d.q))),
             true,
         );
     }
 }
 
+/// the distance families: which = 0..5; in Sweep mode every family is visited
+fn distance_choices(c: &Case, rng: &mut Rng) -> Vec<usize> {
+    let w = rng.below(5);
+    if c.mode == Mode::Sweep {
+        (0..5).collect()
+    } else {
+        vec![w]
+    }
+}
+fn minkowski_others(pp: u16) -> Vec<(String, Minkowski)> {
+    (1u16..=4).filter(|q| *q != pp).map(|q| (format!("minkowski(p={})", q), Distances::minkowski(q))).collect()
+}
+
 fn case_knn<T: Num>(c: &mut Case, rng: &mut Rng, regressor: bool) {
     let p = rng.usize_in(1, 4);
     let n = rng.usize_in(p + 3, 30);
-    let which = rng.below(5);
     let kcls = rng.usize_in(2, 3);
-    let (d, d2) = gen_data(rng, n, p, Feat::Cont, if regressor { Target::Reg } else { Target::Class(kcls) }, which == 4, true);
-    match which {
-        0 => knn_with::<T, _>(c, rng, Distances::euclidian(), "euclidian", &d, &d2, regressor),
-        1 => knn_with::<T, _>(c, rng, Distances::manhattan(), "manhattan", &d, &d2, regressor),
-        2 => {
-            let pp = rng.usize_in(1, 4) as u16;
-            knn_with::<T, _>(c, rng, Distances::minkowski(pp), &format!("minkowski({})", pp), &d, &d2, regressor)
+    for which in distance_choices(c, rng) {
+        let (d, d2) = gen_data(rng, n, p, Feat::Cont, if regressor { Target::Reg } else { Target::Class(kcls) }, which == 4, true);
+        match which {
+            0 => knn_with::<T, _>(c, rng, Distances::euclidian(), "euclidian", vec![], &d, &d2, regressor),
+            1 => knn_with::<T, _>(c, rng, Distances::manhattan(), "manhattan", vec![], &d, &d2, regressor),
+            2 => {
+                let pp = rng.usize_in(1, 4) as u16;
+                knn_with::<T, _>(c, rng, Distances::minkowski(pp), &format!("minkowski({})", pp), minkowski_others(pp), &d, &d2, regressor)
+            }
+            3 => knn_with::<T, _>(c, rng, Distances::hamming(), "hamming", vec![], &d, &d2, regressor),
+            _ => match guard(|| Distances::mahalanobis(&mat::<T>(&d.x))) {
+                Ok(md) => knn_with::<T, Mahalanobis<T, DenseMatrix<T>>>(c, rng, md, "mahalanobis", vec![], &d, &d2, regressor),
+                Err(_) => c.count("search:fit-panic(mahalanobis-singular)"),
+            },
         }
-        3 => knn_with::<T, _>(c, rng, Distances::hamming(), "hamming", &d, &d2, regressor),
-        _ => match guard(|| Distances::mahalanobis(&mat::<T>(&d.x))) {
-            Ok(md) => knn_with::<T, Mahalanobis<T, DenseMatrix<T>>>(c, rng, md, "mahalanobis", &d, &d2, regressor),
-            Err(_) => c.count("search:fit-panic(mahalanobis-singular)"),
-        },
     }
 }
 
@@ -828,100 +1287,129 @@ fn case_tree<T: Num>(c: &mut Case, rng: &mut Rng, which: usize) {
     let ntrees = rng.usize_in(1, 6);
     let seed = rng.next_u64() % 1000;
     let mtry = if rng.bool() { Some(rng.usize_in(1, p)) } else { None };
-    describe(c, &d, &format!("max_depth={:?} min_samples_leaf={} min_samples_split={} criterion={} n_trees={} seed={} m={:?}", depth, leaf, split, crit, ntrees, seed, mtry));
-    let criterion = move || match crit {
+    let keep = rng.chance(0.3);
+    describe(c, &d, &format!("max_depth={:?} min_samples_leaf={} min_samples_split={} criterion={} n_trees={} seed={} m={:?} keep_samples={}", depth, leaf, split, crit, ntrees, seed, mtry, keep));
+    let criterion = match crit {
         0 => SplitCriterion::Gini,
         1 => SplitCriterion::Entropy,
         _ => SplitCriterion::ClassificationError,
     };
-    let predict_obs = |r: Result<Vec<T>, Failed>| -> Vec<f64> {
-        let mut o = vec![];
-        push_res(&mut o, r);
-        o
-    };
+    // the fields shared by the four parameter structs
+    macro_rules! tree_vars {
+        ($vs:ident, $base:ident) => {
+            var!($vs, $base, "max_depth=None", |p| p.max_depth = None);
+            var!($vs, $base, "max_depth=Some(1)", |p| p.max_depth = Some(1));
+            var!($vs, $base, "max_depth=Some(65535)", |p| p.max_depth = Some(u16::MAX));
+            var!($vs, $base, "min_samples_leaf=1", |p| p.min_samples_leaf = 1);
+            var!($vs, $base, "min_samples_leaf=n", |p| p.min_samples_leaf = n);
+            var!($vs, $base, "min_samples_split=2", |p| p.min_samples_split = 2);
+            var!($vs, $base, "min_samples_split=n+1", |p| p.min_samples_split = n + 1);
+        };
+    }
+    macro_rules! crit_vars {
+        ($vs:ident, $base:ident) => {
+            var!($vs, $base, "criterion=Gini", |p| p.criterion = SplitCriterion::Gini);
+            var!($vs, $base, "criterion=Entropy", |p| p.criterion = SplitCriterion::Entropy);
+            var!($vs, $base, "criterion=ClassificationError", |p| p.criterion = SplitCriterion::ClassificationError);
+        };
+    }
+    macro_rules! forest_vars {
+        ($vs:ident, $base:ident) => {
+            var!($vs, $base, "n_trees=1", |p| p.n_trees = 1);
+            var!($vs, $base, "n_trees=7", |p| p.n_trees = 7);
+            var!($vs, $base, "m=None", |p| p.m = None);
+            var!($vs, $base, "m=Some(1)", |p| p.m = Some(1));
+            var!($vs, $base, "m=Some(p)", |p| p.m = Some(d.x[0].len()));
+            var!($vs, $base, "keep_samples=true", |p| p.keep_samples = true);
+            var!($vs, $base, "keep_samples=false", |p| p.keep_samples = false);
+            var!($vs, $base, "seed=0", |p| p.seed = 0);
+            var!($vs, $base, "seed=u64::MAX", |p| p.seed = u64::MAX);
+        };
+    }
     match which {
         0 => {
-            let mk = move || {
-                let mut pr = DecisionTreeClassifierParameters::default().with_criterion(criterion()).with_min_samples_leaf(leaf).with_min_samples_split(split);
-                if let Some(dp) = depth {
-                    pr = pr.with_max_depth(dp);
-                }
-                pr
-            };
-            check_params(c, &mk());
-            run_type(
+            let mut base = DecisionTreeClassifierParameters::default().with_criterion(criterion).with_min_samples_leaf(leaf).with_min_samples_split(split);
+            base.max_depth = depth;
+            let mut vs = vec![];
+            crit_vars!(vs, base);
+            tree_vars!(vs, base);
+            run_est(
                 c,
+                rng,
                 &d,
                 &d2,
-                move |d: &Data| DecisionTreeClassifier::fit(&mat::<T>(&d.x), &vect::<T>(&d.y), mk()).map_err(|e| e.to_string()),
+                base,
+                vs,
+                Some(check_params),
+                |d: &Data, p: &DecisionTreeClassifierParameters| DecisionTreeClassifier::fit(&mat::<T>(&d.x), &vect::<T>(&d.y), p.clone()).map_err(|e| e.to_string()),
                 eq_of(),
                 |m: &DecisionTreeClassifier<T>, d: &Data| predict_obs(m.predict(&mat::<T>(&d.q))),
                 true,
             );
         }
         1 => {
-            let mk = move || {
-                let mut pr = DecisionTreeRegressorParameters::default().with_min_samples_leaf(leaf).with_min_samples_split(split);
-                if let Some(dp) = depth {
-                    pr = pr.with_max_depth(dp);
-                }
-                pr
-            };
-            check_params(c, &mk());
-            run_type(
+            let mut base = DecisionTreeRegressorParameters::default().with_min_samples_leaf(leaf).with_min_samples_split(split);
+            base.max_depth = depth;
+            let mut vs = vec![];
+            tree_vars!(vs, base);
+            run_est(
                 c,
+                rng,
                 &d,
                 &d2,
-                move |d: &Data| DecisionTreeRegressor::fit(&mat::<T>(&d.x), &vect::<T>(&d.y), mk()).map_err(|e| e.to_string()),
+                base,
+                vs,
+                Some(check_params),
+                |d: &Data, p: &DecisionTreeRegressorParameters| DecisionTreeRegressor::fit(&mat::<T>(&d.x), &vect::<T>(&d.y), p.clone()).map_err(|e| e.to_string()),
                 eq_of(),
                 |m: &DecisionTreeRegressor<T>, d: &Data| predict_obs(m.predict(&mat::<T>(&d.q))),
                 true,
             );
         }
         2 => {
-            let mk = move || {
-                let mut pr = RandomForestClassifierParameters::default()
-                    .with_criterion(criterion())
-                    .with_min_samples_leaf(leaf)
-                    .with_min_samples_split(split)
-                    .with_n_trees(ntrees as u16)
-                    .with_seed(seed);
-                if let Some(dp) = depth {
-                    pr = pr.with_max_depth(dp);
-                }
-                if let Some(mm) = mtry {
-                    pr = pr.with_m(mm);
-                }
-                pr
-            };
-            check_params(c, &mk());
-            run_type(
+            let mut base = RandomForestClassifierParameters::default()
+                .with_criterion(criterion)
+                .with_min_samples_leaf(leaf)
+                .with_min_samples_split(split)
+                .with_n_trees(ntrees as u16)
+                .with_keep_samples(keep)
+                .with_seed(seed);
+            base.max_depth = depth;
+            base.m = mtry;
+            let mut vs = vec![];
+            crit_vars!(vs, base);
+            tree_vars!(vs, base);
+            forest_vars!(vs, base);
+            run_est(
                 c,
+                rng,
                 &d,
                 &d2,
-                move |d: &Data| RandomForestClassifier::fit(&mat::<T>(&d.x), &vect::<T>(&d.y), mk()).map_err(|e| e.to_string()),
+                base,
+                vs,
+                Some(check_params),
+                |d: &Data, p: &RandomForestClassifierParameters| RandomForestClassifier::fit(&mat::<T>(&d.x), &vect::<T>(&d.y), p.clone()).map_err(|e| e.to_string()),
                 eq_of(),
                 |m: &RandomForestClassifier<T>, d: &Data| predict_obs(m.predict(&mat::<T>(&d.q))),
                 true,
             );
         }
         _ => {
-            let mk = move || {
-                let mut pr = RandomForestRegressorParameters::default().with_min_samples_leaf(leaf).with_min_samples_split(split).with_n_trees(ntrees).with_seed(seed);
-                if let Some(dp) = depth {
-                    pr = pr.with_max_depth(dp);
-                }
-                if let Some(mm) = mtry {
-                    pr = pr.with_m(mm);
-                }
-                pr
-            };
-            check_params(c, &mk());
-            run_type(
+            let mut base = RandomForestRegressorParameters::default().with_min_samples_leaf(leaf).with_min_samples_split(split).with_n_trees(ntrees).with_keep_samples(keep).with_seed(seed);
+            base.max_depth = depth;
+            base.m = mtry;
+            let mut vs = vec![];
+            tree_vars!(vs, base);
+            forest_vars!(vs, base);
+            run_est(
                 c,
+                rng,
                 &d,
                 &d2,
-                move |d: &Data| RandomForestRegressor::fit(&mat::<T>(&d.x), &vect::<T>(&d.y), mk()).map_err(|e| e.to_string()),
+                base,
+                vs,
+                Some(check_params),
+                |d: &Data, p: &RandomForestRegressorParameters| RandomForestRegressor::fit(&mat::<T>(&d.x), &vect::<T>(&d.y), p.clone()).map_err(|e| e.to_string()),
                 eq_of(),
                 |m: &RandomForestRegressor<T>, d: &Data| predict_obs(m.predict(&mat::<T>(&d.q))),
                 true,
@@ -942,57 +1430,98 @@ fn case_nb<T: Num>(c: &mut Case, rng: &mut Rng, which: usize) {
     };
     let (d, d2) = gen_data(rng, n, p, feat, Target::Class(k), true, true);
     let alpha = *rng.pick(&[0.5, 1.0, 2.0]);
-    let predict_obs = |r: Result<Vec<T>, Failed>| -> Vec<f64> {
-        let mut o = vec![];
-        push_res(&mut o, r);
-        o
-    };
+    let uniform: Vec<T> = (0..k).map(|_| t::<T>(1.0 / k as f64)).collect();
+    let skewed: Vec<T> = (0..k).map(|i| t::<T>(if i == 0 { 1.0 - 0.125 * (k - 1) as f64 } else { 0.125 })).collect();
+    let priors = rng.bool();
     match which {
         0 => {
-            let priors = rng.bool();
             describe(c, &d, &format!("priors={}", priors));
-            let mk = move || {
-                let pr = GaussianNBParameters::default();
-                if priors {
-                    pr.with_priors((0..k).map(|_| t::<T>(1.0 / k as f64)).collect())
-                } else {
-                    pr
-                }
-            };
-            check_params(c, &mk());
-            run_type(
+            let mut base = GaussianNBParameters::default();
+            if priors {
+                base = base.with_priors(uniform.clone());
+            }
+            let mut vs = vec![];
+            var!(vs, base, "priors=None", |p| p.priors = None);
+            var!(vs, base, "priors=Some(uniform)", |p| p.priors = Some(uniform.clone()));
+            var!(vs, base, "priors=Some(skewed)", |p| p.priors = Some(skewed.clone()));
+            run_est(
                 c,
+                rng,
                 &d,
                 &d2,
-                move |d: &Data| GaussianNB::fit(&mat::<T>(&d.x), &vect::<T>(&d.y), mk()).map_err(|e| e.to_string()),
+                base,
+                vs,
+                Some(check_params),
+                |d: &Data, p: &GaussianNBParameters<T>| GaussianNB::fit(&mat::<T>(&d.x), &vect::<T>(&d.y), p.clone()).map_err(|e| e.to_string()),
                 eq_of(),
                 |m: &GaussianNB<T, DenseMatrix<T>>, d: &Data| predict_obs(m.predict(&mat::<T>(&d.q))),
                 true,
             );
         }
         1 => {
-            describe(c, &d, &format!("alpha={} binarize=0.5", alpha));
-            let mk = move || BernoulliNBParameters::default().with_alpha(t::<T>(alpha)).with_binarize(t::<T>(0.5));
-            check_params(c, &mk());
-            run_type(
+            // the data are 0/1 already: a threshold in (0, 1), the default threshold 0 and no threshold at
+            // all ("the input consists of binary vectors") describe the same model
+            let bz = *rng.pick(&[Some(0.5), Some(0.0), None]);
+            describe(c, &d, &format!("alpha={} binarize={:?} priors={}", alpha, bz, priors));
+            let mut base = BernoulliNBParameters::default().with_alpha(t::<T>(alpha));
+            base.binarize = bz.map(|v| t::<T>(v));
+            if priors {
+                base = base.with_priors(uniform.clone());
+            }
+            let mut vs = vec![];
+            var!(vs, base, "binarize=None", |p| p.binarize = None);
+            var!(vs, base, "binarize=Some(0)", |p| p.binarize = Some(t::<T>(0.0)));
+            var!(vs, base, "binarize=Some(0.5)", |p| p.binarize = Some(t::<T>(0.5)));
+            var!(vs, base, "priors=None", |p| p.priors = None);
+            var!(vs, base, "priors=Some(uniform)", |p| p.priors = Some(uniform.clone()));
+            var!(vs, base, "priors=Some(skewed)", |p| p.priors = Some(skewed.clone()));
+            var!(vs, base, "priors=None,binarize=None", |p| {
+                p.priors = None;
+                p.binarize = None
+            });
+            var!(vs, base, "priors=Some,binarize=None", |p| {
+                p.priors = Some(uniform.clone());
+                p.binarize = None
+            });
+            var!(vs, base, "alpha=0(boundary)", |p| p.alpha = t::<T>(0.0));
+            var!(vs, base, "alpha=1e-6", |p| p.alpha = t::<T>(1e-6));
+            var!(vs, base, "alpha=100", |p| p.alpha = t::<T>(100.0));
+            run_est(
                 c,
+                rng,
                 &d,
                 &d2,
-                move |d: &Data| BernoulliNB::fit(&mat::<T>(&d.x), &vect::<T>(&d.y), mk()).map_err(|e| e.to_string()),
+                base,
+                vs,
+                Some(check_params),
+                |d: &Data, p: &BernoulliNBParameters<T>| BernoulliNB::fit(&mat::<T>(&d.x), &vect::<T>(&d.y), p.clone()).map_err(|e| e.to_string()),
                 eq_of(),
                 |m: &BernoulliNB<T, DenseMatrix<T>>, d: &Data| predict_obs(m.predict(&mat::<T>(&d.q))),
                 true,
             );
         }
         2 => {
-            describe(c, &d, &format!("alpha={}", alpha));
-            let mk = move || MultinomialNBParameters::default().with_alpha(t::<T>(alpha));
-            check_params(c, &mk());
-            run_type(
+            describe(c, &d, &format!("alpha={} priors={}", alpha, priors));
+            let mut base = MultinomialNBParameters::default().with_alpha(t::<T>(alpha));
+            if priors {
+                base = base.with_priors(uniform.clone());
+            }
+            let mut vs = vec![];
+            var!(vs, base, "priors=None", |p| p.priors = None);
+            var!(vs, base, "priors=Some(uniform)", |p| p.priors = Some(uniform.clone()));
+            var!(vs, base, "priors=Some(skewed)", |p| p.priors = Some(skewed.clone()));
+            var!(vs, base, "alpha=0(boundary)", |p| p.alpha = t::<T>(0.0));
+            var!(vs, base, "alpha=1e-6", |p| p.alpha = t::<T>(1e-6));
+            var!(vs, base, "alpha=100", |p| p.alpha = t::<T>(100.0));
+            run_est(
                 c,
+                rng,
                 &d,
                 &d2,
-                move |d: &Data| MultinomialNB::fit(&mat::<T>(&d.x), &vect::<T>(&d.y), mk()).map_err(|e| e.to_string()),
+                base,
+                vs,
+                Some(check_params),
+                |d: &Data, p: &MultinomialNBParameters<T>| MultinomialNB::fit(&mat::<T>(&d.x), &vect::<T>(&d.y), p.clone()).map_err(|e| e.to_string()),
                 eq_of(),
                 |m: &MultinomialNB<T, DenseMatrix<T>>, d: &Data| predict_obs(m.predict(&mat::<T>(&d.q))),
                 true,
@@ -1000,13 +1529,21 @@ fn case_nb<T: Num>(c: &mut Case, rng: &mut Rng, which: usize) {
         }
         _ => {
             describe(c, &d, &format!("alpha={}", alpha));
-            let mk = move || CategoricalNBParameters::default().with_alpha(t::<T>(alpha));
-            check_params(c, &mk());
-            run_type(
+            let base = CategoricalNBParameters::default().with_alpha(t::<T>(alpha));
+            let mut vs = vec![];
+            var!(vs, base, "alpha=0(boundary)", |p| p.alpha = t::<T>(0.0));
+            var!(vs, base, "alpha=1e-6", |p| p.alpha = t::<T>(1e-6));
+            var!(vs, base, "alpha=1", |p| p.alpha = t::<T>(1.0));
+            var!(vs, base, "alpha=100", |p| p.alpha = t::<T>(100.0));
+            run_est(
                 c,
+                rng,
                 &d,
                 &d2,
-                move |d: &Data| CategoricalNB::fit(&mat::<T>(&d.x), &vect::<T>(&d.y), mk()).map_err(|e| e.to_string()),
+                base,
+                vs,
+                Some(check_params),
+                |d: &Data, p: &CategoricalNBParameters<T>| CategoricalNB::fit(&mat::<T>(&d.x), &vect::<T>(&d.y), p.clone()).map_err(|e| e.to_string()),
                 eq_of(),
                 |m: &CategoricalNB<T, DenseMatrix<T>>, d: &Data| predict_obs(m.predict(&mat::<T>(&d.q))),
                 true,
@@ -1015,57 +1552,90 @@ fn case_nb<T: Num>(c: &mut Case, rng: &mut Rng, which: usize) {
     }
 }
 
-fn svm_with<T: Num, K>(c: &mut Case, rng: &mut Rng, kernel: K, kname: &str, d: &Data, d2: &Data, regressor: bool)
+#[allow(clippy::too_many_arguments)]
+fn svm_with<T: Num, K>(c: &mut Case, rng: &mut Rng, kernel: K, kname: &str, more: Vec<(String, K)>, d: &Data, d2: &Data, regressor: bool)
 where
     K: Kernel<T, Vec<T>> + Serialize + DeserializeOwned + Debug + Clone + Send + Sync + 'static,
 {
     let cc = *rng.pick(&[0.5, 1.0, 10.0]);
     let eps = *rng.pick(&[0.1, 0.5, 1.0]);
     describe(c, d, &format!("kernel={} c={} eps={}", kname, cc, eps));
+    let kn = kname.split('(').next().unwrap_or(kname).to_string();
     // the kernel alone is a serialisable public type (no PartialEq): round trip + kernel values
     {
         let saved = c.tname.clone();
-        c.tname = format!("kernel:{}", kname.split('(').next().unwrap_or(kname));
+        c.tname = format!("kernel:{}", kn);
         let qs = rows_t::<T>(&d.q);
         let xs = rows_t::<T>(&d.x);
-        c.out.eval(hash_of(&format!("{:?}{:?}", kernel, d.q)), true);
-        check_roundtrip(c, &kernel, None, &|kk: &K| {
-            let mut o = vec![];
-            for a in qs.iter() {
-                for b in xs.iter().take(4) {
-                    o.push(f(kk.apply(a, b)));
-                }
+        let mut all = vec![(kname.to_string(), kernel.clone())];
+        if c.mode == Mode::Sweep {
+            all.extend(more.iter().cloned());
+        }
+        for (l, kv) in all {
+            c.out.eval(hash_of(&format!("{:?}{:?}", kv, d.q)), true);
+            if c.mode == Mode::Sweep {
+                c.out.count(&format!("coverage:kernel:{}", l));
+                c.input["variant"] = json!(format!("kernel={}", l));
             }
-            o
-        });
+            check_roundtrip(c, &kv, None, &|kk: &K| {
+                let mut o = vec![];
+                for a in qs.iter() {
+                    for b in xs.iter().take(4) {
+                        o.push(f(kk.apply(a, b)));
+                    }
+                }
+                o
+            });
+        }
         c.tname = saved;
     }
+    let lab = |s: &str| format!("kernel={},{}", kn, s);
     if regressor {
-        let kk = kernel.clone();
-        let mk = move || SVRParameters::default().with_c(t::<T>(cc)).with_eps(t::<T>(eps)).with_kernel(kk.clone());
-        check_params::<SVRParameters<T, DenseMatrix<T>, K>>(c, &mk());
-        run_type(
+        let base: SVRParameters<T, DenseMatrix<T>, K> = SVRParameters::default().with_c(t::<T>(cc)).with_eps(t::<T>(eps)).with_kernel(kernel);
+        let mut vs = vec![];
+        var!(vs, base, lab("eps=0.01"), |p| p.eps = t::<T>(0.01));
+        var!(vs, base, lab("eps=1"), |p| p.eps = t::<T>(1.0));
+        var!(vs, base, lab("c=0.1"), |p| p.c = t::<T>(0.1));
+        var!(vs, base, lab("c=100"), |p| p.c = t::<T>(100.0));
+        var!(vs, base, lab("tol=0.1"), |p| p.tol = t::<T>(0.1));
+        var!(vs, base, lab("tol=1e-4"), |p| p.tol = t::<T>(1e-4));
+        for (l, kv) in more.iter() {
+            var!(vs, base, format!("kernel={}", l), |p| p = p.with_kernel(kv.clone()));
+        }
+        run_est(
             c,
+            rng,
             d,
             d2,
-            move |d: &Data| SVR::fit(&mat::<T>(&d.x), &vect::<T>(&d.y), mk()).map_err(|e| e.to_string()),
+            base,
+            vs,
+            Some(check_params),
+            |d: &Data, p: &SVRParameters<T, DenseMatrix<T>, K>| SVR::fit(&mat::<T>(&d.x), &vect::<T>(&d.y), p.clone()).map_err(|e| e.to_string()),
             eq_of(),
-            |m: &SVR<T, DenseMatrix<T>, K>, d: &Data| {
-                let mut o = vec![];
-                push_res(&mut o, m.predict(&mat::<T>(&d.q)));
-                o
-            },
+            |m: &SVR<T, DenseMatrix<T>, K>, d: &Data| predict_obs(m.predict(&mat::<T>(&d.q))),
             true,
         );
     } else {
-        let kk = kernel.clone();
-        let mk = move || SVCParameters::default().with_c(t::<T>(cc)).with_epoch(2).with_kernel(kk.clone());
-        check_params::<SVCParameters<T, DenseMatrix<T>, K>>(c, &mk());
-        run_type(
+        let base: SVCParameters<T, DenseMatrix<T>, K> = SVCParameters::default().with_c(t::<T>(cc)).with_epoch(2).with_kernel(kernel);
+        let mut vs = vec![];
+        var!(vs, base, lab("epoch=1"), |p| p.epoch = 1);
+        var!(vs, base, lab("epoch=3"), |p| p.epoch = 3);
+        var!(vs, base, lab("c=0.1"), |p| p.c = t::<T>(0.1));
+        var!(vs, base, lab("c=100"), |p| p.c = t::<T>(100.0));
+        var!(vs, base, lab("tol=0.1"), |p| p.tol = t::<T>(0.1));
+        var!(vs, base, lab("tol=1e-4"), |p| p.tol = t::<T>(1e-4));
+        for (l, kv) in more.iter() {
+            var!(vs, base, format!("kernel={}", l), |p| p = p.with_kernel(kv.clone()));
+        }
+        run_est(
             c,
+            rng,
             d,
             d2,
-            move |d: &Data| SVC::fit(&mat::<T>(&d.x), &vect::<T>(&d.y), mk()).map_err(|e| e.to_string()),
+            base,
+            vs,
+            Some(check_params),
+            |d: &Data, p: &SVCParameters<T, DenseMatrix<T>, K>| SVC::fit(&mat::<T>(&d.x), &vect::<T>(&d.y), p.clone()).map_err(|e| e.to_string()),
             eq_of(),
             |m: &SVC<T, DenseMatrix<T>, K>, d: &Data| {
                 let mut o = vec![];
@@ -1081,38 +1651,53 @@ where
 fn case_svm<T: Num>(c: &mut Case, rng: &mut Rng, regressor: bool) {
     let p = rng.usize_in(1, 4);
     let n = rng.usize_in(6, 24);
-    let (mut d, mut d2) = gen_data(rng, n, p, Feat::Cont, if regressor { Target::Reg } else { Target::Class(2) }, true, true);
-    // keep the kernels in a sane range: standardise the scale of the features
-    let sc = d.x.iter().flatten().fold(0.0f64, |a, v| a.max(v.abs())).max(1e-300);
-    for dd in [&mut d, &mut d2] {
-        for r in dd.x.iter_mut().chain(dd.q.iter_mut()) {
-            for v in r.iter_mut() {
-                *v /= sc;
+    let w = rng.below(4);
+    let kinds: Vec<usize> = if c.mode == Mode::Sweep { (0..4).collect() } else { vec![w] };
+    for which in kinds {
+        let (mut d, mut d2) = gen_data(rng, n, p, Feat::Cont, if regressor { Target::Reg } else { Target::Class(2) }, true, true);
+        // keep the kernels in a sane range: standardise the scale of the features
+        let sc = d.x.iter().flatten().fold(0.0f64, |a, v| a.max(v.abs())).max(1e-300);
+        for dd in [&mut d, &mut d2] {
+            for r in dd.x.iter_mut().chain(dd.q.iter_mut()) {
+                for v in r.iter_mut() {
+                    *v /= sc;
+                }
+            }
+            if regressor {
+                let ys = dd.y.iter().fold(0.0f64, |a, v| a.max(v.abs())).max(1e-300);
+                for v in dd.y.iter_mut() {
+                    *v /= ys;
+                }
             }
         }
-        if regressor {
-            let ys = dd.y.iter().fold(0.0f64, |a, v| a.max(v.abs())).max(1e-300);
-            for v in dd.y.iter_mut() {
-                *v /= ys;
+        match which {
+            0 => svm_with::<T, LinearKernel>(c, rng, Kernels::linear(), "linear", vec![], &d, &d2, regressor),
+            1 => {
+                let g = *rng.pick(&[0.1, 0.7, 2.0]);
+                let more = [0.01, 0.1, 0.7, 2.0, 50.0].iter().filter(|v| **v != g).map(|v| (format!("rbf(gamma={})", v), Kernels::rbf(t::<T>(*v)))).collect();
+                svm_with::<T, RBFKernel<T>>(c, rng, Kernels::rbf(t::<T>(g)), &format!("rbf(gamma={})", g), more, &d, &d2, regressor)
             }
-        }
-    }
-    match rng.below(4) {
-        0 => svm_with::<T, LinearKernel>(c, rng, Kernels::linear(), "linear", &d, &d2, regressor),
-        1 => {
-            let g = *rng.pick(&[0.1, 0.7, 2.0]);
-            svm_with::<T, RBFKernel<T>>(c, rng, Kernels::rbf(t::<T>(g)), &format!("rbf({})", g), &d, &d2, regressor)
-        }
-        2 => {
-            let deg = *rng.pick(&[2.0, 3.0]);
-            let g = *rng.pick(&[0.5, 1.0]);
-            let c0 = *rng.pick(&[0.0, 1.0]);
-            svm_with::<T, PolynomialKernel<T>>(c, rng, Kernels::polynomial(t::<T>(deg), t::<T>(g), t::<T>(c0)), &format!("polynomial({},{},{})", deg, g, c0), &d, &d2, regressor)
-        }
-        _ => {
-            let g = *rng.pick(&[0.1, 0.5]);
-            let c0 = *rng.pick(&[0.0, 0.5]);
-            svm_with::<T, SigmoidKernel<T>>(c, rng, Kernels::sigmoid(t::<T>(g), t::<T>(c0)), &format!("sigmoid({},{})", g, c0), &d, &d2, regressor)
+            2 => {
+                let deg = *rng.pick(&[2.0, 3.0]);
+                let g = *rng.pick(&[0.5, 1.0]);
+                let c0 = *rng.pick(&[0.0, 1.0]);
+                let more = [(1.0, 1.0, 0.0), (2.0, 0.5, 1.0), (3.0, 1.0, 0.0), (2.0, 1.0, -1.0), (4.0, 0.25, 0.5)]
+                    .iter()
+                    .filter(|v| **v != (deg, g, c0))
+                    .map(|(a, b, cc)| (format!("polynomial(degree={},gamma={},coef0={})", a, b, cc), Kernels::polynomial(t::<T>(*a), t::<T>(*b), t::<T>(*cc))))
+                    .collect();
+                svm_with::<T, PolynomialKernel<T>>(c, rng, Kernels::polynomial(t::<T>(deg), t::<T>(g), t::<T>(c0)), &format!("polynomial(degree={},gamma={},coef0={})", deg, g, c0), more, &d, &d2, regressor)
+            }
+            _ => {
+                let g = *rng.pick(&[0.1, 0.5]);
+                let c0 = *rng.pick(&[0.0, 0.5]);
+                let more = [(0.1, 0.0), (0.5, 0.5), (1.0, -1.0), (0.01, 0.0)]
+                    .iter()
+                    .filter(|v| **v != (g, c0))
+                    .map(|(a, b)| (format!("sigmoid(gamma={},coef0={})", a, b), Kernels::sigmoid(t::<T>(*a), t::<T>(*b))))
+                    .collect();
+                svm_with::<T, SigmoidKernel<T>>(c, rng, Kernels::sigmoid(t::<T>(g), t::<T>(c0)), &format!("sigmoid(gamma={},coef0={})", g, c0), more, &d, &d2, regressor)
+            }
         }
     }
 }
@@ -1124,11 +1709,21 @@ fn case_kmeans<T: Num + std::iter::Sum>(c: &mut Case, rng: &mut Rng) {
     // no offset: BBDTree::new overflows the stack on f32 data like 100 +- 1e-3 (reported; not a C19 matter)
     let (d, d2) = gen_data(rng, n, p, Feat::Cont, Target::NoTarget, true, false);
     describe(c, &d, &format!("k={}", k));
-    run_type(
+    let base = KMeansParameters::default().with_k(k).with_max_iter(50);
+    let mut vs = vec![];
+    var!(vs, base, "k=2", |p| p.k = 2);
+    var!(vs, base, "k=5", |p| p.k = 5);
+    var!(vs, base, "max_iter=1", |p| p.max_iter = 1);
+    var!(vs, base, "max_iter=100", |p| p.max_iter = 100);
+    run_est(
         c,
+        rng,
         &d,
         &d2,
-        move |d: &Data| KMeans::<T>::fit(&mat::<T>(&d.x), KMeansParameters::default().with_k(k).with_max_iter(50)).map_err(|e| e.to_string()),
+        base,
+        vs,
+        None, // KMeansParameters is not serialisable
+        |d: &Data, p: &KMeansParameters| KMeans::<T>::fit(&mat::<T>(&d.x), p.clone()).map_err(|e| e.to_string()),
         eq_of(),
         |m: &KMeans<T>, d: &Data| {
             let mut o = vec![];
@@ -1140,7 +1735,7 @@ fn case_kmeans<T: Num + std::iter::Sum>(c: &mut Case, rng: &mut Rng) {
     );
 }
 
-fn dbscan_with<T: Num + std::iter::Sum, D>(c: &mut Case, rng: &mut Rng, dist: D, dname: &str, d: &Data, d2: &Data)
+fn dbscan_with<T: Num + std::iter::Sum, D>(c: &mut Case, rng: &mut Rng, dist: D, dname: &str, more: Vec<(String, D)>, d: &Data, d2: &Data)
 where
     D: Distance<Vec<T>, T> + Serialize + DeserializeOwned + Debug + Clone + Send + Sync + 'static,
 {
@@ -1159,25 +1754,34 @@ where
     let ms = rng.usize_in(1, 4);
     let cover = rng.bool();
     describe(c, d, &format!("distance={} eps={} min_samples={} cover_tree={}", dname, eps, ms, cover));
-    let dd = dist.clone();
-    let mk = move || {
-        DBSCANParameters::default()
-            .with_eps(t::<T>(eps))
-            .with_min_samples(ms)
-            .with_algorithm(if cover { KNNAlgorithmName::CoverTree } else { KNNAlgorithmName::LinearSearch })
-            .with_distance(dd.clone())
-    };
-    run_type(
+    let dn = dname.split('(').next().unwrap_or(dname).to_string();
+    let lab = |s: &str| format!("distance={},{}", dn, s);
+    let base = DBSCANParameters::default()
+        .with_eps(t::<T>(eps))
+        .with_min_samples(ms)
+        .with_algorithm(if cover { KNNAlgorithmName::CoverTree } else { KNNAlgorithmName::LinearSearch })
+        .with_distance(dist);
+    let mut vs = vec![];
+    var!(vs, base, lab("algorithm=LinearSearch"), |p| p.algorithm = KNNAlgorithmName::LinearSearch);
+    var!(vs, base, lab("algorithm=CoverTree"), |p| p.algorithm = KNNAlgorithmName::CoverTree);
+    var!(vs, base, lab("min_samples=1"), |p| p.min_samples = 1);
+    var!(vs, base, lab("min_samples=6"), |p| p.min_samples = 6);
+    var!(vs, base, lab("eps=tiny(all-noise)"), |p| p.eps = t::<T>(eps * 1e-3));
+    var!(vs, base, lab("eps=huge(one-cluster)"), |p| p.eps = t::<T>(eps * 1e3));
+    for (l, dv) in more.iter() {
+        var!(vs, base, format!("distance={}", l), |p| p = p.with_distance(dv.clone()));
+    }
+    run_est(
         c,
+        rng,
         d,
         d2,
-        move |d: &Data| DBSCAN::fit(&mat::<T>(&d.x), mk()).map_err(|e| e.to_string()),
+        base,
+        vs,
+        None, // DBSCANParameters is not serialisable
+        |d: &Data, p: &DBSCANParameters<T, D>| DBSCAN::fit(&mat::<T>(&d.x), p.clone()).map_err(|e| e.to_string()),
         eq_of(),
-        |m: &DBSCAN<T, D>, d: &Data| {
-            let mut o = vec![];
-            push_res(&mut o, m.predict(&mat::<T>(&d.q)));
-            o
-        },
+        |m: &DBSCAN<T, D>, d: &Data| predict_obs(m.predict(&mat::<T>(&d.q))),
         true,
     );
 }
@@ -1185,13 +1789,20 @@ where
 fn case_dbscan<T: Num + std::iter::Sum>(c: &mut Case, rng: &mut Rng) {
     let p = rng.usize_in(1, 3);
     let n = rng.usize_in(6, 40);
-    let (d, d2) = gen_data(rng, n, p, Feat::Cont, Target::NoTarget, false, true);
-    match rng.below(3) {
-        0 => dbscan_with::<T, _>(c, rng, Distances::euclidian(), "euclidian", &d, &d2),
-        1 => dbscan_with::<T, _>(c, rng, Distances::manhattan(), "manhattan", &d, &d2),
-        _ => {
-            let pp = rng.usize_in(1, 3) as u16;
-            dbscan_with::<T, _>(c, rng, Distances::minkowski(pp), &format!("minkowski({})", pp), &d, &d2)
+    for which in distance_choices(c, rng) {
+        let (d, d2) = gen_data(rng, n.max(p + 3), p, Feat::Cont, Target::NoTarget, which == 4, true);
+        match which {
+            0 => dbscan_with::<T, _>(c, rng, Distances::euclidian(), "euclidian", vec![], &d, &d2),
+            1 => dbscan_with::<T, _>(c, rng, Distances::manhattan(), "manhattan", vec![], &d, &d2),
+            2 => {
+                let pp = rng.usize_in(1, 3) as u16;
+                dbscan_with::<T, _>(c, rng, Distances::minkowski(pp), &format!("minkowski({})", pp), minkowski_others(pp), &d, &d2)
+            }
+            3 => dbscan_with::<T, _>(c, rng, Distances::hamming(), "hamming", vec![], &d, &d2),
+            _ => match guard(|| Distances::mahalanobis(&mat::<T>(&d.x))) {
+                Ok(md) => dbscan_with::<T, Mahalanobis<T, DenseMatrix<T>>>(c, rng, md, "mahalanobis", vec![], &d, &d2),
+                Err(_) => c.count("search:fit-panic(mahalanobis-singular)"),
+            },
         }
     }
 }
@@ -1204,11 +1815,21 @@ fn case_decomposition<T: Num>(c: &mut Case, rng: &mut Rng, pca: bool) {
     let corr = rng.bool();
     describe(c, &d, &format!("n_components={} use_correlation_matrix={}", k, corr));
     if pca {
-        run_type(
+        let base = PCAParameters::default().with_n_components(k).with_use_correlation_matrix(corr);
+        let mut vs = vec![];
+        var!(vs, base, "n_components=1", |q| q.n_components = 1);
+        var!(vs, base, "n_components=p", |q| q.n_components = p);
+        var!(vs, base, "use_correlation_matrix=true", |q| q.use_correlation_matrix = true);
+        var!(vs, base, "use_correlation_matrix=false", |q| q.use_correlation_matrix = false);
+        run_est(
             c,
+            rng,
             &d,
             &d2,
-            move |d: &Data| PCA::fit(&mat::<T>(&d.x), PCAParameters::default().with_n_components(k).with_use_correlation_matrix(corr)).map_err(|e| e.to_string()),
+            base,
+            vs,
+            None, // PCAParameters is not serialisable
+            |d: &Data, q: &PCAParameters| PCA::fit(&mat::<T>(&d.x), q.clone()).map_err(|e| e.to_string()),
             eq_of(),
             |m: &PCA<T, DenseMatrix<T>>, d: &Data| {
                 let mut o = vec![];
@@ -1219,11 +1840,19 @@ fn case_decomposition<T: Num>(c: &mut Case, rng: &mut Rng, pca: bool) {
             true,
         );
     } else {
-        run_type(
+        let base = SVDParameters::default().with_n_components(k);
+        let mut vs = vec![];
+        var!(vs, base, "n_components=1", |q| q.n_components = 1);
+        var!(vs, base, "n_components=p-1", |q| q.n_components = p - 1);
+        run_est(
             c,
+            rng,
             &d,
             &d2,
-            move |d: &Data| SVD::fit(&mat::<T>(&d.x), SVDParameters::default().with_n_components(k)).map_err(|e| e.to_string()),
+            base,
+            vs,
+            None, // SVDParameters is not serialisable
+            |d: &Data, q: &SVDParameters| SVD::fit(&mat::<T>(&d.x), q.clone()).map_err(|e| e.to_string()),
             eq_of(),
             |m: &SVD<T, DenseMatrix<T>>, d: &Data| {
                 let mut o = vec![];
@@ -1250,7 +1879,8 @@ fn search_obs<T: Num>(o: &mut Vec<f64>, r: Result<Vec<(usize, T, &Vec<T>)>, Fail
     }
 }
 
-fn neighbour_with<T: Num, D>(c: &mut Case, rng: &mut Rng, dist: D, dname: &str, d: &Data, d2: &Data, cover: bool)
+#[allow(clippy::too_many_arguments)]
+fn neighbour_with<T: Num, D>(c: &mut Case, rng: &mut Rng, dist: D, dname: &str, more: Vec<(String, D)>, d: &Data, d2: &Data, cover: bool)
 where
     D: Distance<Vec<T>, T> + Serialize + DeserializeOwned + Debug + Clone + Send + Sync + 'static,
 {
@@ -1264,27 +1894,49 @@ where
         c.tname = format!("distance:{}", dname.split('(').next().unwrap_or(dname));
         let qs = rows_t::<T>(&d.q);
         let xs = rows_t::<T>(&d.x);
-        c.out.eval(hash_of(&format!("{:?}{:?}", dist, d.q)), true);
-        check_roundtrip(c, &dist, None, &|dd: &D| {
-            let mut o = vec![];
-            for a in qs.iter() {
-                for b in xs.iter().take(4) {
-                    o.push(f(dd.distance(a, b)));
-                }
+        let mut all = vec![(dname.to_string(), dist.clone())];
+        if c.mode == Mode::Sweep {
+            all.extend(more.iter().cloned());
+        }
+        for (l, dv) in all {
+            c.out.eval(hash_of(&format!("{:?}{:?}", dv, d.q)), true);
+            if c.mode == Mode::Sweep {
+                c.out.count(&format!("coverage:distance:{}", l.split('(').next().unwrap_or(&l)));
+                c.input["variant"] = json!(format!("distance={}", l));
             }
-            o
-        });
+            check_roundtrip(c, &dv, None, &|dd: &D| {
+                let mut o = vec![];
+                for a in qs.iter() {
+                    for b in xs.iter().take(4) {
+                        o.push(f(dd.distance(a, b)));
+                    }
+                }
+                o
+            });
+        }
         c.tname = saved;
     }
+    // the search structures have one "parameter": the distance object they own
+    let mut vs: Vec<(String, D)> = vec![];
+    for (l, dv) in more.iter() {
+        vs.push((format!("distance={}", l), dv.clone()));
+    }
+    if c.mode == Mode::Sweep {
+        c.input["variant"] = json!(format!("distance={}", dname));
+        c.out.count(&format!("coverage:{}:distance={}", c.tname, dname.split('(').next().unwrap_or(dname)));
+    }
     if cover {
-        let dd = dist.clone();
-        run_type(
+        run_est(
             c,
+            rng,
             d,
             d2,
-            move |d: &Data| CoverTree::new(rows_t::<T>(&d.x), dd.clone()).map_err(|e| e.to_string()),
+            dist,
+            vs,
+            None,
+            |d: &Data, dd: &D| CoverTree::new(rows_t::<T>(&d.x), dd.clone()).map_err(|e| e.to_string()),
             eq_of(),
-            |m: &CoverTree<Vec<T>, T, D>, d: &Data| {
+            move |m: &CoverTree<Vec<T>, T, D>, d: &Data| {
                 let mut o = vec![];
                 for qq in rows_t::<T>(&d.q).iter() {
                     search_obs(&mut o, m.find(qq, k));
@@ -1295,14 +1947,17 @@ where
             true,
         );
     } else {
-        let dd = dist.clone();
-        run_type(
+        run_est(
             c,
+            rng,
             d,
             d2,
-            move |d: &Data| LinearKNNSearch::new(rows_t::<T>(&d.x), dd.clone()).map_err(|e| e.to_string()),
+            dist,
+            vs,
+            None,
+            |d: &Data, dd: &D| LinearKNNSearch::new(rows_t::<T>(&d.x), dd.clone()).map_err(|e| e.to_string()),
             None, // LinearKNNSearch has no PartialEq
-            |m: &LinearKNNSearch<Vec<T>, T, D>, d: &Data| {
+            move |m: &LinearKNNSearch<Vec<T>, T, D>, d: &Data| {
                 let mut o = vec![];
                 for qq in rows_t::<T>(&d.q).iter() {
                     search_obs(&mut o, m.find(qq, k));
@@ -1318,39 +1973,64 @@ where
 fn case_neighbour<T: Num>(c: &mut Case, rng: &mut Rng, cover: bool) {
     let p = rng.usize_in(1, 4);
     let n = rng.usize_in(1, 30);
-    let which = rng.below(5);
-    let (d, d2) = gen_data(rng, n.max(if which == 4 { p + 3 } else { 1 }), p, Feat::Cont, Target::NoTarget, which == 4, true);
-    match which {
-        0 => neighbour_with::<T, _>(c, rng, Distances::euclidian(), "euclidian", &d, &d2, cover),
-        1 => neighbour_with::<T, _>(c, rng, Distances::manhattan(), "manhattan", &d, &d2, cover),
-        2 => {
-            let pp = rng.usize_in(1, 4) as u16;
-            neighbour_with::<T, _>(c, rng, Distances::minkowski(pp), &format!("minkowski({})", pp), &d, &d2, cover)
+    for which in distance_choices(c, rng) {
+        let (d, d2) = gen_data(rng, n.max(if which == 4 { p + 3 } else { 1 }), p, Feat::Cont, Target::NoTarget, which == 4, true);
+        match which {
+            0 => neighbour_with::<T, _>(c, rng, Distances::euclidian(), "euclidian", vec![], &d, &d2, cover),
+            1 => neighbour_with::<T, _>(c, rng, Distances::manhattan(), "manhattan", vec![], &d, &d2, cover),
+            2 => {
+                let pp = rng.usize_in(1, 4) as u16;
+                neighbour_with::<T, _>(c, rng, Distances::minkowski(pp), &format!("minkowski({})", pp), minkowski_others(pp), &d, &d2, cover)
+            }
+            3 => neighbour_with::<T, _>(c, rng, Distances::hamming(), "hamming", vec![], &d, &d2, cover),
+            _ => match guard(|| Distances::mahalanobis(&mat::<T>(&d.x))) {
+                Ok(md) => neighbour_with::<T, Mahalanobis<T, DenseMatrix<T>>>(c, rng, md, "mahalanobis", vec![], &d, &d2, cover),
+                Err(_) => c.count("search:fit-panic(mahalanobis-singular)"),
+            },
         }
-        3 => neighbour_with::<T, _>(c, rng, Distances::hamming(), "hamming", &d, &d2, cover),
-        _ => match guard(|| Distances::mahalanobis(&mat::<T>(&d.x))) {
-            Ok(md) => neighbour_with::<T, Mahalanobis<T, DenseMatrix<T>>>(c, rng, md, "mahalanobis", &d, &d2, cover),
-            Err(_) => c.count("search:fit-panic(mahalanobis-singular)"),
-        },
     }
 }
 
 /// small public serialisable types without data: enums, metric structs, the error type
 fn case_small_types(c: &mut Case, rng: &mut Rng) {
+    use smartcore::linear::logistic_regression::LogisticRegressionSolverName;
     use smartcore::metrics::{ClassificationMetrics, ClusterMetrics, RegressionMetrics};
     c.input["params"] = json!("enums / metric structs / Failed");
     fn one<P: Serialize + DeserializeOwned + Debug>(c: &mut Case, name: &str, p: &P) {
         let saved = c.tname.clone();
         c.tname = name.to_string();
         c.out.eval(hash_of(&format!("{}{:?}", name, p)), true);
+        if c.mode == Mode::Sweep {
+            let dbg = format!("{:?}", p);
+            c.out.count(&format!("coverage:{}:{}", name, dbg.split(|ch| ch == '{' || ch == '(').next().unwrap_or("").trim()));
+            c.input["variant"] = json!(format!("{}::{}", name, dbg));
+        }
         check_roundtrip(c, p, None, &|_: &P| vec![]);
         c.tname = saved;
     }
-    one(c, "KNNAlgorithmName", rng.pick(&[KNNAlgorithmName::CoverTree, KNNAlgorithmName::LinearSearch]));
-    one(c, "KNNWeightFunction", rng.pick(&[KNNWeightFunction::Uniform, KNNWeightFunction::Distance]));
-    one(c, "SplitCriterion", rng.pick(&[SplitCriterion::Gini, SplitCriterion::Entropy, SplitCriterion::ClassificationError]));
-    one(c, "LinearRegressionSolverName", rng.pick(&[LinearRegressionSolverName::QR, LinearRegressionSolverName::SVD]));
-    one(c, "RidgeRegressionSolverName", rng.pick(&[RidgeRegressionSolverName::Cholesky, RidgeRegressionSolverName::SVD]));
+    /// Search: one variant at random; Sweep: every variant
+    fn each<P: Serialize + DeserializeOwned + Debug>(c: &mut Case, rng: &mut Rng, name: &str, all: &[P]) {
+        let i = rng.below(all.len());
+        if c.mode == Mode::Sweep {
+            for p in all {
+                one(c, name, p);
+            }
+        } else {
+            one(c, name, &all[i]);
+        }
+    }
+    each(c, rng, "KNNAlgorithmName", &[KNNAlgorithmName::CoverTree, KNNAlgorithmName::LinearSearch]);
+    each(c, rng, "KNNWeightFunction", &[KNNWeightFunction::Uniform, KNNWeightFunction::Distance]);
+    each(c, rng, "SplitCriterion", &[SplitCriterion::Gini, SplitCriterion::Entropy, SplitCriterion::ClassificationError]);
+    each(c, rng, "LinearRegressionSolverName", &[LinearRegressionSolverName::QR, LinearRegressionSolverName::SVD]);
+    each(c, rng, "RidgeRegressionSolverName", &[RidgeRegressionSolverName::Cholesky, RidgeRegressionSolverName::SVD]);
+    each(c, rng, "LogisticRegressionSolverName", &[LogisticRegressionSolverName::LBFGS]);
+    each(
+        c,
+        rng,
+        "FailedError",
+        &[FailedError::FitFailed, FailedError::PredictFailed, FailedError::TransformFailed, FailedError::FindFailed, FailedError::DecompositionFailed, FailedError::SolutionFailed],
+    );
     one(c, "metrics::Accuracy", &ClassificationMetrics::accuracy());
     one(c, "metrics::Recall", &ClassificationMetrics::recall());
     one(c, "metrics::Precision", &ClassificationMetrics::precision());
@@ -1370,17 +2050,24 @@ fn case_small_types(c: &mut Case, rng: &mut Rng) {
         4 => Failed::because(FailedError::DecompositionFailed, msg),
         _ => Failed::because(FailedError::SolutionFailed, msg),
     };
-    let (k1, m1) = (rng.below(6), *rng.pick(&msgs));
-    let a = mk(k1, m1);
     let saved = c.tname.clone();
     c.tname = "Failed".into();
-    c.out.eval(hash_of(&format!("{:?}", a)), true);
-    check_roundtrip(c, &a, eq_of(), &|e: &Failed| vec![e.error() as u8 as f64]);
-    let (k2, m2) = (rng.below(6), *rng.pick(&msgs));
-    let b = mk(k2, m2);
-    let expect = k1 == k2 && m1 == m2;
-    if (a == b) != expect {
-        c.fail("different_data_unequal", "Failed: equality does not follow (kind, message)");
+    let (r1, rm1) = (rng.below(6), rng.below(msgs.len()));
+    let firsts: Vec<(usize, &str)> = if c.mode == Mode::Sweep { (0..6).flat_map(|k| msgs.iter().map(move |m| (k, *m))).collect() } else { vec![(r1, msgs[rm1])] };
+    for (k1, m1) in firsts {
+        let a = mk(k1, m1);
+        c.out.eval(hash_of(&format!("{:?}", a)), true);
+        if c.mode == Mode::Sweep {
+            c.out.count(&format!("coverage:Failed:{:?}", a.error()));
+            c.input["variant"] = json!(format!("Failed kind {} message {:?}", k1, m1));
+        }
+        check_roundtrip(c, &a, eq_of(), &|e: &Failed| vec![e.error() as u8 as f64]);
+        let (k2, m2) = (rng.below(6), *rng.pick(&msgs));
+        let b = mk(k2, m2);
+        let expect = k1 == k2 && m1 == m2;
+        if (a == b) != expect {
+            c.fail("different_data_unequal", "Failed: equality does not follow (kind, message)");
+        }
     }
     c.tname = saved;
 }
@@ -1414,9 +2101,22 @@ pub const KINDS: &[&str] = &[
     "small-types",
 ];
 
+/// boundary shapes of the dense matrix for the sweep: empty, single entry, single row / column, non-square
+const DM_SHAPES: &[(usize, usize)] = &[(0, 0), (1, 1), (1, 7), (7, 1), (2, 5), (5, 2), (4, 4)];
+
 fn run_kind<T: Num + std::iter::Sum>(c: &mut Case, rng: &mut Rng, kind: &str) {
     match kind {
-        "DenseMatrix" => case_dense_matrix::<T>(c, rng),
+        "DenseMatrix" => {
+            if c.mode == Mode::Sweep {
+                for (n, p) in DM_SHAPES {
+                    c.out.count(&format!("coverage:DenseMatrix:{}x{}", n, p));
+                    c.input["variant"] = json!(format!("{}x{}", n, p));
+                    case_dense_matrix::<T>(c, rng, Some((*n, *p)));
+                }
+            } else {
+                case_dense_matrix::<T>(c, rng, None)
+            }
+        }
         "LinearRegression" => case_linear::<T>(c, rng, 0),
         "RidgeRegression" => case_linear::<T>(c, rng, 1),
         "Lasso" => case_linear::<T>(c, rng, 2),
@@ -1444,13 +2144,16 @@ fn run_kind<T: Num + std::iter::Sum>(c: &mut Case, rng: &mut Rng, kind: &str) {
     }
 }
 
-/// One search case, fully determined by (kind, case_seed): this pair is the replay.
-pub fn run_case(out: &mut Out, kind: &str, case_seed: u64) {
+/// One case, fully determined by (entry, kind, case_seed[, f32]): this tuple is the replay.
+/// entry "search": random parameters, all clauses incl. the related-data oracle;
+/// entry "sweep": every parameter variant of the kind through both formats.
+pub fn run_case(out: &mut Out, mode: Mode, kind: &str, case_seed: u64, width: Option<bool>) {
     let mut rng = Rng::new(case_seed);
-    let f32m = rng.chance(0.3);
+    let drawn = rng.chance(0.3);
+    let f32m = width.unwrap_or(drawn);
     F32_MODE.store(f32m, std::sync::atomic::Ordering::Relaxed);
-    let input = json!({"entry": "search", "kind": kind, "case_seed": case_seed.to_string(), "f32": f32m});
-    let mut c = Case { out, tname: kind.to_string(), input, f32m };
+    let input = json!({"entry": if mode == Mode::Sweep { "sweep" } else { "search" }, "kind": kind, "case_seed": case_seed.to_string(), "f32": f32m});
+    let mut c = Case { out, tname: kind.to_string(), input, f32m, mode };
     if f32m {
         run_kind::<f32>(&mut c, &mut rng, kind);
     } else {
@@ -1463,12 +2166,13 @@ fn replay(path: &str) -> i32 {
     let inp = if v.get("input").is_some() { v["input"].clone() } else { v.clone() };
     let mut out = Out::new("C19", "replay");
     match inp["entry"].as_str().unwrap_or("") {
-        "search" => {
+        e @ ("search" | "sweep") => {
             let kind = inp["kind"].as_str().unwrap_or("").to_string();
             let seed: u64 = inp["case_seed"].as_str().and_then(|s| s.parse().ok()).or_else(|| inp["case_seed"].as_u64()).unwrap_or(0);
+            let mode = if e == "sweep" { Mode::Sweep } else { Mode::Search };
             // unseeded estimators (SVC, KMeans): repeat a few times
             for _ in 0..3 {
-                run_case(&mut out, &kind, seed);
+                run_case(&mut out, mode, &kind, seed, inp["f32"].as_bool());
             }
         }
         "codec" | "bincode" | "partial_eq" => {
@@ -1497,12 +2201,26 @@ fn main() {
     let mut rng = Rng::new(a.seed);
     let mut out = Out::new(
         "C19",
-        "search case = (serialisable type, scalar width, hyper-parameters, training data, second data set with different rows and targets, query matrix); non-trivial: the fit succeeded on >= 3 rows (parameter structs, enums, distances, kernels: always); distinct by hash of (type, width, parameters, data)",
+        "search case = (serialisable type, scalar width, hyper-parameters, training data, second data set with different rows and targets, training sets related to the first (appended rows, row-prefix, one target / one feature changed, permuted, one class more / fewer, another parameter value), query matrix); sweep case = (type, width, data, EVERY parameter variant of the type); non-trivial: the fit succeeded on >= 3 rows (parameter structs, enums, distances, kernels: always); distinct by hash of (type, width, parameters, data)",
     );
     out.max_samples = 3;
 
     // ---- corpus + correspondence ----
-    c19_corr::run_corr(&mut out, &mut rng, a.thorough);
+    // (own stream: the number of draws depends on the state of unseeded fits)
+    let mut rng_corr = rng.fork();
+    c19_corr::run_corr(&mut out, &mut rng_corr, a.thorough);
+
+    // ---- parameter coverage: every variant of every type, both widths, both formats ----
+    let sweeps = if a.thorough { 12 } else { 2 };
+    for i in 0..sweeps {
+        for kind in KINDS {
+            let cs = rng.next_u64();
+            if std::env::var("C19_TRACE").is_ok() {
+                eprintln!("sweep {} {}", kind, cs);
+            }
+            run_case(&mut out, Mode::Sweep, kind, cs, Some(i % 2 == 1));
+        }
+    }
 
     // ---- search ----
     let rounds = if a.thorough { 4000 } else { 300 };
@@ -1512,7 +2230,7 @@ fn main() {
             if std::env::var("C19_TRACE").is_ok() {
                 eprintln!("{} {}", kind, cs);
             }
-            run_case(&mut out, kind, cs);
+            run_case(&mut out, Mode::Search, kind, cs, None);
         }
     }
     out.finish(&a.out);
@@ -2260,8 +2978,9 @@ mod c19_corr {
                 go!($kind, $fit, "")
             };
             ($kind:expr, $fit:expr, $root:expr) => {
+                let mut r1 = rng.fork();
                 if let Ok(Ok(m)) = guard(|| $fit) {
-                    corr_model_eq(out, rng, $kind, &m, $root, reps);
+                    corr_model_eq(out, &mut r1, $kind, &m, $root, reps);
                 }
             };
         }
@@ -2288,6 +3007,49 @@ mod c19_corr {
         go!("BernoulliNB", BernoulliNB::fit(&mat::<f64>(&db.x), &db.y, BernoulliNBParameters::default().with_binarize(0.5)), "/inner/distribution");
         let dk = small_data(rng, n, 2, Target::Class(2), Feat::Cat);
         go!("CategoricalNB", CategoricalNB::fit(&mat::<f64>(&dk.x), &dk.y, CategoricalNBParameters::default()), "/inner/distribution");
+    }
+
+    /// PartialEq on PREFIX pairs: a model and the model fitted on the same rows plus appended rows (both
+    /// directions, also with a different k).  The relations with a length test (k-NN on the stored targets,
+    /// cover tree on the stored points) must answer `false` exactly like their models.
+    fn corr_prefix_pairs(out: &mut Out, rng: &mut Rng) {
+        fn emit<M: Serialize + PartialEq>(out: &mut Out, kind: &str, what: &str, a: &M, b: &M) {
+            let (va, vb) = match (serde_json::to_value(a), serde_json::to_value(b)) {
+                (Ok(x), Ok(y)) => (x, y),
+                _ => return,
+            };
+            for (x, y, vx, vy) in [(a, b, &va, &vb), (b, a, &vb, &va)] {
+                let res = guard(|| x == y).ok();
+                if let Some(term) = model_term(kind, vx, vy, res) {
+                    out.corr(&format!("eq_prefix_{}", kind), term, json!({"entry": "partial_eq", "kind": kind, "edit": what, "a": vx, "b": vy, "impl_eq": res}));
+                }
+            }
+        }
+        let n = rng.usize_in(4, 7);
+        let p = rng.usize_in(1, 2);
+        let cut = rng.usize_in(2, n - 1); // the prefix keeps `cut` rows
+        let dr = small_data(rng, n, p, Target::Reg, Feat::Cont);
+        let dc = small_data(rng, n, p, Target::Class(2), Feat::Cont);
+        let k = rng.usize_in(1, cut.min(3));
+        let k2 = if rng.chance(0.25) { k % cut + 1 } else { k };
+        let what = format!("row-prefix: {} of {} rows, k = {} / {}", cut, n, k, k2);
+        let alg = || if rng_free_bool(n + cut + k) { KNNAlgorithmName::LinearSearch } else { KNNAlgorithmName::CoverTree };
+        let fr = |rows: usize, k: usize| KNNRegressor::fit(&mat::<f64>(&dr.x[..rows]), &dr.y[..rows].to_vec(), KNNRegressorParameters::default().with_k(k).with_algorithm(alg()));
+        if let (Ok(Ok(a)), Ok(Ok(b))) = (guard(|| fr(cut, k)), guard(|| fr(n, k2))) {
+            emit(out, "KNNRegressor", &what, &a, &b);
+        }
+        let fc = |rows: usize, k: usize| KNNClassifier::fit(&mat::<f64>(&dc.x[..rows]), &dc.y[..rows].to_vec(), KNNClassifierParameters::default().with_k(k).with_algorithm(alg()));
+        if let (Ok(Ok(a)), Ok(Ok(b))) = (guard(|| fc(cut, k)), guard(|| fc(n, k2))) {
+            emit(out, "KNNClassifier", &what, &a, &b);
+        }
+        let ft = |rows: usize| CoverTree::new(rows_t::<f64>(&dr.x[..rows]), Distances::euclidian());
+        if let (Ok(Ok(a)), Ok(Ok(b))) = (guard(|| ft(cut)), guard(|| ft(n))) {
+            emit(out, "CoverTree", &what, &a, &b);
+        }
+    }
+    /// a choice that does not consume the stream
+    fn rng_free_bool(x: usize) -> bool {
+        x % 2 == 0
     }
 
     pub fn run_corr(out: &mut Out, rng: &mut Rng, thorough: bool) {
@@ -2327,6 +3089,10 @@ mod c19_corr {
         }
         for _ in 0..k {
             corr_models(out, rng, if thorough { 6 } else { 3 });
+        }
+        for _ in 0..6 * k {
+            let mut r1 = rng.fork();
+            corr_prefix_pairs(out, &mut r1);
         }
     }
 
